@@ -120,26 +120,60 @@ Proof. constructor; reflexivity. Qed.
 Lemma same_heavy_trans a b c : same_heavy a b -> same_heavy b c -> same_heavy a c.
 Proof. intros [] []. constructor; congruence. Qed.
 
+(* effect of nulling entries of a callback list that is being walked *)
+Definition nulled (l l' : list (N * bool)) : Prop :=
+  length l' = length l /\
+  forall j d f, nth_error l j = Some (d, f) -> exists f', nth_error l' j = Some (d, f') /\ (f = false -> f' = false).
+
+Lemma nulled_refl l : nulled l l.
+Proof. split; [reflexivity|]. intros j d f H. exists f. auto. Qed.
+
+Lemma nulled_trans a b c : nulled a b -> nulled b c -> nulled a c.
+Proof.
+  intros [L1 H1] [L2 H2]. split; [congruence|]. intros j d f H.
+  destruct (H1 _ _ _ H) as (f1 & E1 & F1). destruct (H2 _ _ _ E1) as (f2 & E2 & F2).
+  exists f2. split; [exact E2|auto].
+Qed.
+
 Definition tlive_same (st st' : state) : Prop :=
   forall t, (aget t (tracks st') = None <-> aget t (tracks st) = None) /\
-            option_map t_clearing (live_track t st') = option_map t_clearing (live_track t st).
+            option_map t_clearing (live_track t st') = option_map t_clearing (live_track t st) /\
+            (forall tr, live_track t st = Some tr -> t_clearing tr = true ->
+               exists tr', live_track t st' = Some tr' /\ nulled (tl_of tr) (tl_of tr')).
 
 Lemma tlive_same_refl st : tlive_same st st.
-Proof. intro t. split; reflexivity. Qed.
+Proof.
+  intro t. split; [reflexivity|]. split; [reflexivity|]. intros tr H _. exists tr. split; [exact H|apply nulled_refl].
+Qed.
 
 Lemma tlive_same_trans a b c : tlive_same a b -> tlive_same b c -> tlive_same a c.
 Proof.
-  intros H1 H2 t. destruct (H1 t) as [A1 B1], (H2 t) as [A2 B2]. split; [tauto|congruence].
+  intros H1 H2 t. destruct (H1 t) as (A1 & B1 & C1), (H2 t) as (A2 & B2 & C2).
+  split; [tauto|]. split; [congruence|]. intros tr Hl Hc.
+  destruct (C1 tr Hl Hc) as (tr1 & Hl1 & N1).
+  assert (Hc1 : t_clearing tr1 = true).
+  { rewrite Hl, Hl1 in B1. cbn [option_map] in B1. congruence. }
+  destruct (C2 tr1 Hl1 Hc1) as (tr2 & Hl2 & N2). exists tr2. split; [exact Hl2|eapply nulled_trans; eauto].
 Qed.
 
 Lemma tlive_live st st' t : tlive_same st st' -> (live_track t st' <> None <-> live_track t st <> None).
 Proof.
-  intro H. destruct (H t) as [_ E].
+  intro H. destruct (H t) as (_ & E & _).
   destruct (live_track t st'), (live_track t st); cbn [option_map] in E; split; intro X; congruence.
 Qed.
 
+Lemma tlive_noclear st st' : tlive_same st st' -> noclear st -> noclear st'.
+Proof.
+  intros T Hnc t' tr' Hl'. destruct (T t') as (_ & E & _). rewrite Hl' in E. cbn [option_map] in E.
+  destruct (live_track t' st) as [tr0|] eqn:Hl0; cbn [option_map] in E; [|discriminate].
+  inversion E as [E2]. rewrite E2. exact (Hnc _ _ Hl0).
+Qed.
+
 Lemma tlive_tracks_eq st st' : tracks st' = tracks st -> tlive_same st st'.
-Proof. intros E t. unfold live_track. rewrite E. split; reflexivity. Qed.
+Proof.
+  intros E t. unfold live_track. rewrite E. split; [reflexivity|]. split; [reflexivity|].
+  intros tr H _. exists tr. split; [exact H|apply nulled_refl].
+Qed.
 
 Lemma all_reps_heavy st st' : same_heavy st st' -> all_reps st' = all_reps st.
 Proof. intros []. unfold all_reps, var_reps, node_reps. congruence. Qed.
@@ -199,13 +233,17 @@ Lemma set_track_heavy t tr st : same_heavy st (set_track t tr st).
 Proof. constructor; reflexivity. Qed.
 
 Lemma set_track_tlive t tr tr0 st : live_track t st = Some tr0 -> t_clearing tr = t_clearing tr0 ->
+  (t_clearing tr0 = true -> nulled (tl_of tr0) (tl_of tr)) ->
   tlive_same st (set_track t tr st).
 Proof.
-  intros Hl Hc t'. split.
-  - unfold set_track. cbn [tracks with_tracks]. rewrite aget_aset. destruct (N.eqb_spec t' t) as [->|Hn]; [|reflexivity].
+  intros Hl Hc Hn t'. split; [|split].
+  - unfold set_track. cbn [tracks with_tracks]. rewrite aget_aset. destruct (N.eqb_spec t' t) as [->|Hne]; [|reflexivity].
     unfold live_track in Hl. destruct (aget t (tracks st)) as [[x|]|]; try discriminate. split; discriminate.
-  - rewrite live_set_track. destruct (N.eqb_spec t' t) as [->|Hn]; [|reflexivity].
+  - rewrite live_set_track. destruct (N.eqb_spec t' t) as [->|Hne]; [|reflexivity].
     rewrite Hl. cbn [option_map]. congruence.
+  - intros tr1 Hl1 Hc1. rewrite live_set_track. destruct (N.eqb_spec t' t) as [->|Hne].
+    + exists tr. split; [reflexivity|]. rewrite Hl in Hl1. inversion Hl1; subst tr1. auto.
+    + exists tr1. split; [exact Hl1|apply nulled_refl].
 Qed.
 
 Lemma dem_cons t rid rid' refs D :
@@ -217,7 +255,7 @@ Lemma track_add_ok t rid D st tr : live_track t st = Some tr -> t_clearing tr = 
               same_heavy st st' /\ tlive_same st st' /\ conns st' = conns st /\ sconns st' = sconns st.
 Proof.
   intros Hl Hc [R1 R2]. unfold track_add. rewrite Hl, Hc. eexists. split; [reflexivity|].
-  split; [|split; [apply set_track_heavy|split; [eapply set_track_tlive; eauto|split; reflexivity]]].
+  split; [|split; [apply set_track_heavy|split; [eapply set_track_tlive; eauto; intro X; congruence|split; reflexivity]]].
   split.
   - intros t' rid' H. rewrite live_set_track. destruct (N.eqb_spec t' t) as [->|Hn]; [discriminate|].
     rewrite dem_cons in H. cbn [count_occ] in H. destruct (N.eq_dec t t'); [congruence|].
@@ -242,11 +280,11 @@ Proof.
   unfold track_remove. rewrite Hl.
   set (l := match t_list tr with Some l => l | None => [] end).
   assert (Hgen : forall l', (forall rid', cnt rid' l' = if N.eqb rid' rid then pred (cnt rid l) else cnt rid' l) ->
-     forall c, c = t_clearing tr ->
+     forall c, c = t_clearing tr -> (c = true -> nulled l l') ->
      regs ((rid, refs) :: D) (set_track t (mkTr (Some l') c) st) /\
      same_heavy st (set_track t (mkTr (Some l') c) st) /\
      tlive_same st (set_track t (mkTr (Some l') c) st)).
-  { intros l' Hl' c Hc. split; [|split; [apply set_track_heavy|eapply set_track_tlive; eauto]].
+  { intros l' Hl' c Hc Hnl. split; [|split; [apply set_track_heavy|eapply set_track_tlive; eauto; cbn [t_clearing]; intro X; apply Hnl; congruence]].
     split.
     - intros t' rid' H. rewrite live_set_track. destruct (N.eqb_spec t' t) as [->|Hn]; [discriminate|].
       apply (R1 t' rid'). rewrite dem_cons in *. cbn [count_occ]. destruct (N.eq_dec t t'); [congruence|]. exact H.
@@ -259,9 +297,12 @@ Proof.
         * destruct (N.eqb_spec rid rid'); [congruence|]. destruct (N.eqb_spec rid rid'); [congruence|]. exact E1.
       + rewrite (R2 t' tr' H rid'). rewrite !dem_cons. cbn [count_occ]. destruct (N.eq_dec t t'); [congruence|]. reflexivity. }
   destruct (t_clearing tr) eqn:Hc; eexists; (split; [reflexivity|]).
-  - destruct (Hgen (cb_null_first rid l) (fun r => cnt_null rid r l) true eq_refl) as (A & B & C).
+  - assert (Hnl : nulled l (cb_null_first rid l)).
+    { split; [apply null_length|]. intros j d f Hj. apply null_nth. exact Hj. }
+    destruct (Hgen (cb_null_first rid l) (fun r => cnt_null rid r l) true eq_refl (fun _ => Hnl)) as (A & B & C).
     split; [exact A|split; [exact B|split; [exact C|split; reflexivity]]].
-  - destruct (Hgen (cb_erase_first rid l) (fun r => cnt_erase rid r l) false eq_refl) as (A & B & C).
+  - assert (Hnl : false = true -> nulled l (cb_erase_first rid l)) by discriminate.
+    destruct (Hgen (cb_erase_first rid l) (fun r => cnt_erase rid r l) false eq_refl Hnl) as (A & B & C).
     split; [exact A|split; [exact B|split; [exact C|split; reflexivity]]].
 Qed.
 
@@ -296,10 +337,7 @@ Proof.
   - destruct (live_track t st) as [tr|] eqn:Hl; [|exfalso; apply (Hlive t); [left; reflexivity|exact Hl]].
     destruct (track_add_ok t rid D st tr Hl (Hnc _ _ Hl) H) as (st1 & E1 & R1 & H1 & T1 & C1 & K1).
     rewrite E1. cbn [rbind].
-    assert (Hnc1 : noclear st1).
-    { intros t' tr' Hl'. destruct (T1 t') as [_ E]. rewrite Hl' in E. cbn [option_map] in E.
-      destruct (live_track t' st) as [tr0|] eqn:Hl0; cbn [option_map] in E; [|discriminate].
-      inversion E. rewrite (Hnc _ _ Hl0) in *. assumption. }
+    assert (Hnc1 : noclear st1) by (eapply tlive_noclear; eauto).
     assert (Hlive1 : forall t', In t' refs -> live_track t' st1 <> None).
     { intros t' Hi. apply (tlive_live _ _ _ T1). apply Hlive. right; exact Hi. }
     destruct (IH _ st1 R1 Hnc1 Hlive1) as (st2 & E2 & R2 & H2 & T2 & C2 & K2).
@@ -307,4 +345,2019 @@ Proof.
     + eapply regs_dem_eq; [|exact R2]. intros t' r. rewrite !dem_cons. cbn [count_occ].
       destruct (N.eqb rid r); destruct (N.eq_dec t t'); lia.
     + split; [eapply same_heavy_trans; eauto|split; [eapply tlive_same_trans; eauto|split; congruence]].
+Qed.
+
+(* ------------------------------------------------------------------ *)
+(* WFstruct under elementary updates                                    *)
+
+Lemma NoDup_map_replace {A B} (f : A -> B) a x x' b :
+  NoDup (map f (a ++ x ++ b)) -> NoDup (map f x') ->
+  (forall y, In y x' -> In (f y) (map f x) \/ ~ In (f y) (map f (a ++ x ++ b))) ->
+  NoDup (map f (a ++ x' ++ b)).
+Proof.
+  rewrite !map_app. intros H Hx' Hy.
+  apply NoDup_app_iff in H. destruct H as (Ha & Hxb & Hd1).
+  apply NoDup_app_iff in Hxb. destruct Hxb as (Hx & Hb & Hd2).
+  assert (Hfresh : forall z, In z (map f x') -> ~ In z (map f a) /\ ~ In z (map f b)).
+  { intros z Hz. apply in_map_iff in Hz. destruct Hz as (y & <- & Hyi).
+    destruct (Hy y Hyi) as [Hin|Hnin].
+    - split.
+      + intro Hi. apply (Hd1 _ Hi). apply in_or_app. left; exact Hin.
+      + apply Hd2. exact Hin.
+    - split; intro Hi; apply Hnin; rewrite !in_app_iff; auto. }
+  apply NoDup_app_iff. split; [exact Ha|]. split.
+  - apply NoDup_app_iff. split; [exact Hx'|]. split; [exact Hb|].
+    intros z Hz. apply (Hfresh z Hz).
+  - intros z Hz Hz'. apply in_app_or in Hz'. destruct Hz' as [Hz'|Hz'].
+    + destruct (Hfresh z Hz') as [X _]. exact (X Hz).
+    + apply (Hd1 z Hz). apply in_or_app. right; exact Hz'.
+Qed.
+
+Lemma Forall_replace {A} (P : A -> Prop) a x x' b :
+  Forall P (a ++ x ++ b) -> Forall P x' -> Forall P (a ++ x' ++ b).
+Proof.
+  rewrite !Forall_app. intros (Ha & _ & Hb) Hx'. auto.
+Qed.
+
+Definition reps_upd_ok (st : state) (Y Y' : list rep) : Prop :=
+  NoDup (map r_id Y') /\ Forall (rep_good st) Y' /\
+  (forall r', In r' Y' -> In (r_id r') (map r_id Y) \/ ~ In (r_id r') (map r_id (all_reps st))).
+
+Lemma reps_upd_nil st Y : reps_upd_ok st Y [].
+Proof. split; [constructor|]. split; [constructor|]. intros r' []. Qed.
+
+Lemma reps_upd_same_ids st L Y Y' R :
+  all_reps st = L ++ Y ++ R -> NoDup (map r_id (all_reps st)) ->
+  map r_id Y' = map r_id Y -> Forall (rep_good st) Y' -> reps_upd_ok st Y Y'.
+Proof.
+  intros E Hnd Hm Hg. split; [|split; [exact Hg|]].
+  - rewrite Hm. rewrite E, !map_app in Hnd. apply NoDup_app_r in Hnd. apply NoDup_app_l in Hnd. exact Hnd.
+  - intros r' Hi. left. rewrite <- Hm. apply in_map. exact Hi.
+Qed.
+
+Lemma reps_upd_refl st L Y R :
+  all_reps st = L ++ Y ++ R -> NoDup (map r_id (all_reps st)) -> Forall (rep_good st) (all_reps st) ->
+  reps_upd_ok st Y Y.
+Proof.
+  intros E Hnd Hg. eapply reps_upd_same_ids; eauto.
+  rewrite E, !Forall_app in Hg. tauto.
+Qed.
+
+Lemma reps_replace st st' L Y Y' R :
+  all_reps st = L ++ Y ++ R -> all_reps st' = L ++ Y' ++ R -> next_rid st' = next_rid st ->
+  reps_upd_ok st Y Y' -> NoDup (map r_id (all_reps st)) -> Forall (rep_good st) (all_reps st) ->
+  NoDup (map r_id (all_reps st')) /\ Forall (rep_good st') (all_reps st').
+Proof.
+  intros E E' En (U1 & U2 & U3) Hnd Hg. rewrite E'. split.
+  - rewrite E in Hnd. eapply NoDup_map_replace; eauto. intros y Hy. rewrite <- E. auto.
+  - assert (X : forall r, rep_good st r -> rep_good st' r) by (unfold rep_good; intro r; rewrite En; tauto).
+    rewrite E in Hg. eapply Forall_impl; [exact X|]. eapply Forall_replace; eauto.
+Qed.
+
+Lemma nid_ok_mono st st' n : next_nid st <= next_nid st' -> next_ph st <= next_ph st' ->
+  nid_ok st n -> nid_ok st' n.
+Proof. destruct n; unfold nid_ok; lia. Qed.
+
+Lemma WFstruct_mono st st' : slots st' = slots st -> impls st' = impls st ->
+  next_rid st <= next_rid st' -> next_nid st <= next_nid st' -> next_iid st <= next_iid st' ->
+  next_ph st <= next_ph st' -> WFstruct st -> WFstruct st'.
+Proof.
+  intros Es Ei Hr Hn Hi Hp [].
+  assert (Ea : all_reps st' = all_reps st) by (unfold all_reps, var_reps, node_reps; congruence).
+  assert (Ev : var_reps st' = var_reps st) by (unfold var_reps; congruence).
+  constructor; rewrite ?Ea, ?Ev, ?Es, ?Ei; try assumption.
+  - intros i Hin. specialize (ws_iid0 i Hin). lia.
+  - intros i im Hg. destruct (ws_nodes0 i im Hg) as (A & B). split; [exact A|].
+    eapply Forall_impl; [|exact B]. intro n. apply nid_ok_mono; assumption.
+  - eapply Forall_impl; [|exact ws_good0]. unfold rep_good. intros r (A & B). split; [lia|exact B].
+Qed.
+
+(* replacing a block of nodes of impl i *)
+Lemma set_impl_nodes_reps st i im im' P Y Y' Q :
+  aget i (impls st) = Some im -> i_nodes im = P ++ Y ++ Q -> i_nodes im' = P ++ Y' ++ Q ->
+  exists L R, all_reps st = L ++ nodes_reps Y ++ R /\
+              all_reps (set_impl i im' st) = L ++ nodes_reps Y' ++ R.
+Proof.
+  intros Hi En En'. destruct (node_reps_present _ _ _ Hi) as (A & B & H1 & H2 & _).
+  exists (var_reps st ++ A ++ nodes_reps P), (nodes_reps Q ++ B).
+  unfold all_reps, node_reps, set_impl. cbn [impls with_impls]. rewrite H1, H2, En, En'.
+  rewrite !nodes_reps_app, <- !app_assoc. split; reflexivity.
+Qed.
+
+Lemma WFstruct_set_impl st i im im' P Y Y' Q :
+  WFstruct st -> aget i (impls st) = Some im ->
+  i_nodes im = P ++ Y ++ Q -> i_nodes im' = P ++ Y' ++ Q ->
+  NoDup (ids (i_nodes im')) -> Forall (nid_ok st) (ids Y') ->
+  reps_upd_ok st (nodes_reps Y) (nodes_reps Y') ->
+  WFstruct (set_impl i im' st).
+Proof.
+  intros [] Hi En En' Hnd Hok Hup.
+  destruct (set_impl_nodes_reps _ _ _ _ _ _ _ _ Hi En En') as (L & R & E & E').
+  destruct (reps_replace _ _ _ _ _ _ E E' eq_refl Hup ws_rids0 ws_good0) as (N1 & N2).
+  constructor; try assumption.
+  - unfold set_impl. cbn [impls with_impls]. apply nodup_keys_aset. exact ws_keys_impls0.
+  - unfold set_impl. cbn [impls with_impls next_iid]. intros j Hj. apply in_keys_aset in Hj.
+    destruct Hj as [->|Hj]; [|auto]. apply ws_iid0. eapply aget_some_in_keys; eauto.
+  - unfold set_impl. cbn [impls with_impls]. intros j imj. rewrite aget_aset.
+    destruct (N.eqb_spec j i) as [->|Hn]; [|apply ws_nodes0].
+    intro H. inversion H; subst imj. split; [exact Hnd|].
+    destruct (ws_nodes0 i im Hi) as (_ & B). rewrite En in B. rewrite En'.
+    unfold ids in *. rewrite !map_app, !Forall_app in *. tauto.
+Qed.
+
+Lemma set_slot_reps st s o o' :
+  aget s (slots st) = Some o ->
+  exists L R, all_reps st = L ++ slot_reps o ++ R /\
+              all_reps (with_slots (aset s o' (slots st)) st) = L ++ slot_reps o' ++ R /\
+              exists L', var_reps st = L ++ slot_reps o ++ L' /\
+                         var_reps (with_slots (aset s o' (slots st)) st) = L ++ slot_reps o' ++ L'.
+Proof.
+  intro H. destruct (var_reps_present _ _ _ H) as (A & B & H1 & H2).
+  exists A, (B ++ node_reps st). unfold all_reps, var_reps, node_reps. cbn [slots impls with_slots].
+  rewrite H1, H2, <- !app_assoc. split; [reflexivity|]. split; [reflexivity|].
+  exists B. split; reflexivity.
+Qed.
+
+Lemma WFstruct_set_slot st s o o' :
+  WFstruct st -> aget s (slots st) = Some o ->
+  reps_upd_ok st (slot_reps o) (slot_reps o') -> Forall rep_detached (slot_reps o') ->
+  WFstruct (with_slots (aset s o' (slots st)) st).
+Proof.
+  intros [] Hs Hup Hdet.
+  destruct (set_slot_reps st s o o' Hs) as (L & R & E & E' & L' & V & V').
+  destruct (reps_replace _ _ _ _ _ _ E E' eq_refl Hup ws_rids0 ws_good0) as (N1 & N2).
+  constructor; try assumption.
+  - cbn [slots with_slots]. apply nodup_keys_aset. exact ws_keys_slots0.
+  - rewrite V'. rewrite V in ws_vars0. eapply Forall_replace; eauto.
+Qed.
+
+Lemma WFstruct_new_slot st s o' :
+  WFstruct st -> aget s (slots st) = None ->
+  reps_upd_ok st [] (slot_reps o') -> Forall rep_detached (slot_reps o') ->
+  WFstruct (with_slots (aset s o' (slots st)) st).
+Proof.
+  intros [] Hs Hup Hdet.
+  assert (V' : var_reps (with_slots (aset s o' (slots st)) st) = var_reps st ++ slot_reps o').
+  { unfold var_reps. cbn [slots with_slots]. apply var_reps_absent. exact Hs. }
+  assert (E : all_reps st = var_reps st ++ [] ++ node_reps st) by reflexivity.
+  assert (E' : all_reps (with_slots (aset s o' (slots st)) st) = var_reps st ++ slot_reps o' ++ node_reps st).
+  { unfold all_reps at 1. rewrite V'. rewrite <- app_assoc. reflexivity. }
+  destruct (reps_replace _ _ _ _ _ _ E E' eq_refl Hup ws_rids0 ws_good0) as (N1 & N2).
+  constructor; try assumption.
+  - cbn [slots with_slots]. apply nodup_keys_aset. exact ws_keys_slots0.
+  - rewrite V'. apply Forall_app. split; assumption.
+Qed.
+
+Lemma WFstruct_new_impl st :
+  WFstruct st ->
+  WFstruct (set_impl (next_iid st) (mkImpl [] 0 false 0 false) (with_next_iid (next_iid st + 1) st)).
+Proof.
+  intros [].
+  assert (Hn : aget (next_iid st) (impls st) = None).
+  { apply aget_none_iff. intro Hin. specialize (ws_iid0 _ Hin). lia. }
+  assert (Ea : all_reps (set_impl (next_iid st) (mkImpl [] 0 false 0 false) (with_next_iid (next_iid st + 1) st)) = all_reps st).
+  { unfold all_reps, var_reps, node_reps, set_impl. cbn [slots impls with_impls with_next_iid].
+    rewrite (node_reps_absent _ _ _ Hn). cbn [i_nodes nodes_reps flat_map]. rewrite app_nil_r. reflexivity. }
+  constructor; rewrite ?Ea; try assumption.
+  - unfold set_impl. cbn [impls with_impls]. apply nodup_keys_aset. exact ws_keys_impls0.
+  - unfold set_impl. cbn [impls with_impls next_iid with_next_iid]. intros j Hj. apply in_keys_aset in Hj.
+    destruct Hj as [->|Hj]; [lia|]. specialize (ws_iid0 j Hj). lia.
+  - unfold set_impl. cbn [impls with_impls with_next_iid]. intros j imj. rewrite aget_aset.
+    destruct (N.eqb_spec j (next_iid st)) as [->|Hne].
+    + intro H. inversion H; subst imj. split; cbn [i_nodes ids map]; constructor.
+    + intro H. destruct (ws_nodes0 j imj H) as (A & B). split; [exact A|exact B].
+Qed.
+
+Lemma WFstruct_del_impl st i im :
+  WFstruct st -> aget i (impls st) = Some im -> i_nodes im = [] ->
+  WFstruct (with_impls (adel i (impls st)) st).
+Proof.
+  intros [] Hi Hn.
+  assert (Ea : all_reps (with_impls (adel i (impls st)) st) = all_reps st).
+  { unfold all_reps, var_reps, node_reps. cbn [slots impls with_impls].
+    destruct (node_reps_present _ _ _ Hi) as (A & B & H1 & _ & H3). rewrite H1, H3, Hn. reflexivity. }
+  constructor; rewrite ?Ea; try assumption.
+  - cbn [impls with_impls]. apply nodup_keys_adel. exact ws_keys_impls0.
+  - cbn [impls with_impls next_iid]. intros j Hj. apply ws_iid0. eapply in_keys_adel; eauto.
+  - cbn [impls with_impls]. intros j imj Hj. destruct (N.eq_dec j i) as [->|Hne].
+    + rewrite aget_adel_same in Hj by assumption. discriminate.
+    + rewrite aget_adel_other in Hj by assumption. exact (ws_nodes0 j imj Hj).
+Qed.
+
+(* ------------------------------------------------------------------ *)
+(* The frame of library-internal cascades                               *)
+
+Definition impl_same (im im' : impl) : Prop :=
+  i_exec im' = i_exec im /\ i_holders im' = i_holders im /\ i_dying im' = i_dying im /\
+  (0 < i_exec im -> exists pre post, ids (i_nodes im') = pre ++ ids (i_nodes im) ++ post) /\
+  (i_exec im = 0 -> i_deferred im' = i_deferred im) /\
+  (phc (ids (i_nodes im')) <= phc (ids (i_nodes im)))%nat.
+
+Lemma impl_same_ids im im' :
+  i_exec im' = i_exec im -> i_holders im' = i_holders im -> i_dying im' = i_dying im ->
+  ids (i_nodes im') = ids (i_nodes im) -> (i_exec im = 0 -> i_deferred im' = i_deferred im) ->
+  impl_same im im'.
+Proof.
+  intros H1 H2 H3 H4 H5. split; [exact H1|]. split; [exact H2|]. split; [exact H3|]. split; [|split; [exact H5|]].
+  - intros _. exists [], []. rewrite H4, app_nil_r. reflexivity.
+  - rewrite H4. lia.
+Qed.
+
+Lemma impl_same_refl im : impl_same im im.
+Proof. apply impl_same_ids; auto. Qed.
+
+Lemma impl_same_trans a b c : impl_same a b -> impl_same b c -> impl_same a c.
+Proof.
+  intros (A1 & A2 & A3 & A4 & A5 & A6) (B1 & B2 & B3 & B4 & B5 & B6).
+  split; [congruence|]. split; [congruence|]. split; [congruence|]. split; [|split].
+  - intro H. destruct (A4 H) as (p1 & q1 & E1). destruct B4 as (p2 & q2 & E2); [lia|].
+    exists (p2 ++ p1), (q1 ++ q2). rewrite E2, E1, <- !app_assoc. reflexivity.
+  - intro H. rewrite B5 by lia. auto.
+  - lia.
+Qed.
+
+Record Casc (st st' : state) : Prop := mkCasc
+  { ca_sigs : sigs st' = sigs st
+  ; ca_tracks : tlive_same st st'
+  ; ca_impls : forall i, match aget i (impls st), aget i (impls st') with
+                         | Some im, Some im' => impl_same im im'
+                         | None, None => True
+                         | _, _ => False
+                         end }.
+
+Lemma Casc_refl st : Casc st st.
+Proof.
+  constructor; [reflexivity|apply tlive_same_refl|].
+  intro i. destruct (aget i (impls st)); [apply impl_same_refl|exact I].
+Qed.
+
+Lemma Casc_trans a b c : Casc a b -> Casc b c -> Casc a c.
+Proof.
+  intros [] []. constructor; [congruence|eapply tlive_same_trans; eauto|].
+  intro i. specialize (ca_impls0 i). specialize (ca_impls1 i).
+  destruct (aget i (impls a)), (aget i (impls b)), (aget i (impls c)); try tauto.
+  eapply impl_same_trans; eauto.
+Qed.
+
+Lemma Casc_heavy st st' : same_heavy st st' -> tlive_same st st' -> Casc st st'.
+Proof.
+  intros [] T. constructor; [assumption|assumption|].
+  intro i. rewrite sh_impls0. destruct (aget i (impls st)); [apply impl_same_refl|exact I].
+Qed.
+
+Lemma Casc_impl_present st st' i : Casc st st' -> (aget i (impls st) <> None <-> aget i (impls st') <> None).
+Proof.
+  intros [] . specialize (ca_impls0 i).
+  destruct (aget i (impls st)), (aget i (impls st')); try tauto; split; congruence.
+Qed.
+
+(* ------------------------------------------------------------------ *)
+(* watchers                                                             *)
+
+Lemma get_connptr_eq st st' w : conns st' = conns st -> sconns st' = sconns st ->
+  get_connptr w st' = get_connptr w st.
+Proof. intros E1 E2. destruct w; unfold get_connptr; rewrite ?E1, ?E2; reflexivity. Qed.
+
+Lemma target_ok_impls st st' w i n : impls st' = impls st -> target_ok w i n st -> target_ok w i n st'.
+Proof.
+  intros E (sb & r & H1 & H2 & H3). exists sb, r. rewrite (get_sb_node_impls _ _ _ _ E). auto.
+Qed.
+
+Lemma watch_ok_ex_transfer st st' ex : impls st' = impls st -> conns st' = conns st ->
+  sconns st' = sconns st -> watch_ok_ex ex st -> watch_ok_ex ex st'.
+Proof.
+  intros Ei Ec Ek H w i n Hg. rewrite (get_connptr_eq _ _ _ Ec Ek) in Hg.
+  destruct (H w i n Hg) as [X|X]; [left; exact X|right; eapply target_ok_impls; eauto].
+Qed.
+
+Lemma watch_ok_ex_weaken ex ex' st : incl ex ex' -> watch_ok_ex ex st -> watch_ok_ex ex' st.
+Proof. intros Hi H w i n Hg. destruct (H w i n Hg) as [X|X]; [left; apply Hi; exact X|right; exact X]. Qed.
+
+Lemma null_watchers_ok ws ex st : watch_ok_ex (ws ++ ex) st -> watch_ok_ex ex (null_watchers ws st).
+Proof.
+  intros H w i n Hg. rewrite get_connptr_null_watchers in Hg.
+  destruct (existsb (wref_eqb w) ws) eqn:E; [discriminate|].
+  destruct (H w i n Hg) as [X|X].
+  - apply in_app_or in X. destruct X as [X|X]; [|left; exact X].
+    apply existsb_wref in X. congruence.
+  - right. eapply target_ok_impls; [|exact X].
+    destruct (null_watchers_fields ws st) as (_ & _ & Ei & _). exact Ei.
+Qed.
+
+Lemma null_watchers_heavy ws st : same_heavy st (null_watchers ws st).
+Proof.
+  destruct (null_watchers_fields ws st) as (H1 & H2 & H3 & H4 & H5 & H6 & H7 & H8).
+  constructor; assumption.
+Qed.
+
+Lemma null_watchers_tracks ws st : tracks (null_watchers ws st) = tracks st.
+Proof. destruct (null_watchers_fields ws st) as (H1 & H2 & H3 & H4 & _). exact H4. Qed.
+
+(* `delete rep` of a rep value taken out of its owner *)
+Lemma rep_delete_ok r D ex st :
+  regs ((r_id r, refs_of r) :: D) st -> watch_ok_ex (r_watch r ++ ex) st ->
+  exists st', rep_delete r st = Ok st' /\ regs D st' /\ watch_ok_ex ex st' /\
+              same_heavy st st' /\ tlive_same st st'.
+Proof.
+  intros HR HW. unfold rep_delete.
+  set (st0 := if r_attached r then with_leaked (leaked st + 1) st else st).
+  assert (H0 : same_heavy st st0 /\ tracks st0 = tracks st /\ conns st0 = conns st /\ sconns st0 = sconns st).
+  { unfold st0. destruct (r_attached r); repeat split. }
+  destruct H0 as (Hh0 & Et0 & Ec0 & Ek0).
+  assert (HR0 : regs ((r_id r, refs_of r) :: D) st0) by (eapply regs_tracks_eq; eauto).
+  assert (Hu : exists st1, match r_fn r with Some f => unbind_all (r_id r) (f_refs f) st0 | None => Ok st0 end = Ok st1 /\
+             regs D st1 /\ same_heavy st0 st1 /\ tlive_same st0 st1 /\ conns st1 = conns st0 /\ sconns st1 = sconns st0).
+  { unfold refs_of in HR0. destruct (r_fn r) as [f|].
+    - apply unbind_all_ok. exact HR0.
+    - exists st0. split; [reflexivity|]. split; [eapply regs_drop_nil; eauto|].
+      split; [apply same_heavy_refl|split; [apply tlive_same_refl|split; reflexivity]]. }
+  destruct Hu as (st1 & E1 & R1 & H1 & T1 & C1 & K1). rewrite E1. cbn [rbind].
+  eexists. split; [reflexivity|].
+  split; [eapply regs_tracks_eq; [apply null_watchers_tracks|exact R1]|].
+  split.
+  - apply null_watchers_ok. eapply watch_ok_ex_transfer; [| | |exact HW].
+    + destruct H1, Hh0. congruence.
+    + congruence.
+    + congruence.
+  - split.
+    + eapply same_heavy_trans; [exact Hh0|]. eapply same_heavy_trans; [exact H1|apply null_watchers_heavy].
+    + eapply tlive_same_trans; [apply tlive_tracks_eq; exact Et0|].
+      eapply tlive_same_trans; [exact T1|]. apply tlive_tracks_eq. apply null_watchers_tracks.
+Qed.
+
+(* ------------------------------------------------------------------ *)
+(* set_impl basics                                                      *)
+
+Lemma aget_set_impl i j im' st :
+  aget j (impls (set_impl i im' st)) = if N.eqb j i then Some im' else aget j (impls st).
+Proof. unfold set_impl. cbn [impls with_impls]. apply aget_aset. Qed.
+
+Lemma get_sb_set_impl_node i j m im' st :
+  get_sb (LNode j m) (set_impl i im' st) =
+  if N.eqb j i then option_map n_sb (find_node m (i_nodes im')) else get_sb (LNode j m) st.
+Proof.
+  rewrite !get_sb_node, aget_set_impl. destruct (N.eqb j i); reflexivity.
+Qed.
+
+Lemma set_impl_present i im' st j : aget j (impls st) <> None -> aget j (impls (set_impl i im' st)) <> None.
+Proof. rewrite aget_set_impl. destruct (N.eqb j i); [discriminate|auto]. Qed.
+
+Lemma sig_ok_set_impl i im' st : sig_ok st -> sig_ok (set_impl i im' st).
+Proof.
+  apply sig_ok_transfer; [reflexivity|apply tlive_tracks_eq; reflexivity|].
+  intros j. apply set_impl_present.
+Qed.
+
+Lemma WFc_build st1 st' :
+  WFstruct st1 -> sig_ok st1 -> same_heavy st1 st' -> tlive_same st1 st' ->
+  regs (dem_of (all_reps st1)) st' -> watch_ok st' -> WFc st'.
+Proof.
+  intros Hs Hg Hh Ht Hr Hw. constructor.
+  - eapply WFstruct_heavy; eauto.
+  - rewrite (all_reps_heavy _ _ Hh). exact Hr.
+  - eapply sig_ok_transfer; [| | |exact Hg].
+    + destruct Hh; assumption.
+    + exact Ht.
+    + destruct Hh. rewrite sh_impls0. auto.
+  - exact Hw.
+Qed.
+
+Lemma sb_reps_dem sb : dem_of (sb_reps sb) =
+  match sb_rep sb with Some r => [(r_id r, refs_of r)] | None => [] end.
+Proof. unfold sb_reps. destruct (sb_rep sb); reflexivity. Qed.
+
+Lemma regs_mid_out L Y R st : regs (dem_of (L ++ Y ++ R)) st -> regs (dem_of Y ++ dem_of (L ++ R)) st.
+Proof.
+  apply regs_perm. rewrite !dem_of_app. rewrite app_assoc.
+  apply Permutation_trans with ((dem_of Y ++ dem_of L) ++ dem_of R).
+  - apply Permutation_app_tail. apply Permutation_app_comm.
+  - rewrite <- app_assoc. apply Permutation_refl.
+Qed.
+
+Lemma erase_node_ok i n st im nd :
+  WFc st -> aget i (impls st) = Some im -> find_node n (i_nodes im) = Some nd ->
+  exists st', erase_node i n st = Ok st' /\ WFc st' /\
+     same_heavy (set_impl i (with_nodes (del_node n (i_nodes im)) im) st) st' /\ tlive_same st st'.
+Proof.
+  intros [Hs Hr Hg Hw] Hi Hf. unfold erase_node. rewrite Hi, Hf.
+  set (st1 := set_impl i (with_nodes (del_node n (i_nodes im)) im) st).
+  destruct (find_node_split _ _ _ Hf) as (l1 & l2 & En & Hn1 & Hid).
+  assert (Ed : del_node n (i_nodes im) = l1 ++ [] ++ l2).
+  { rewrite En. rewrite (del_node_split _ _ _ _ Hn1 Hid). reflexivity. }
+  assert (En' : i_nodes im = l1 ++ [nd] ++ l2) by (rewrite En; reflexivity).
+  assert (Hs1 : WFstruct st1).
+  { eapply (WFstruct_set_impl st i im _ l1 [nd] [] l2); eauto.
+    - cbn [i_nodes with_nodes]. rewrite Ed. cbn [app].
+      destruct (ws_nodes _ Hs i im Hi) as (A & _). rewrite En in A. unfold ids in *.
+      rewrite map_app in *. cbn [map] in A. apply NoDup_remove_1 in A. exact A.
+    - constructor.
+    - apply reps_upd_nil. }
+  destruct (set_impl_nodes_reps st i im (with_nodes (del_node n (i_nodes im)) im) l1 [nd] [] l2 Hi En' Ed)
+    as (L & R & Ea & Ea1). fold st1 in Ea1. cbn [nodes_reps flat_map app] in Ea, Ea1. rewrite app_nil_r in Ea.
+  assert (Hr1 : regs (dem_of (sb_reps (n_sb nd)) ++ dem_of (all_reps st1)) st1).
+  { rewrite Ea1. apply regs_mid_out. rewrite <- Ea. eapply regs_tracks_eq; [|exact Hr]. reflexivity. }
+  assert (Hg1 : sig_ok st1) by (apply sig_ok_set_impl; exact Hg).
+  assert (Hw1 : watch_ok_ex (flat_map r_watch (sb_reps (n_sb nd)) ++ []) st1).
+  { intros w i' n' Hp. destruct (Hw w i' n' Hp) as [[]|(sb & r & G1 & G2 & G3)].
+    destruct (N.eqb_spec i' i) as [->|Hni].
+    - destruct (nid_eqb_spec n' n) as [->|Hnn].
+      + left. rewrite get_sb_node, Hi, Hf in G1. cbn [option_map] in G1. inversion G1; subst sb.
+        unfold sb_reps. rewrite G2. cbn [optl flat_map]. rewrite !app_nil_r. exact G3.
+      + right. exists sb, r. split; [|auto]. unfold st1. rewrite get_sb_set_impl_node, N.eqb_refl.
+        cbn [i_nodes with_nodes]. rewrite find_node_del_other by assumption.
+        rewrite get_sb_node, Hi in G1. exact G1.
+    - right. exists sb, r. split; [|auto]. unfold st1. rewrite get_sb_set_impl_node.
+      destruct (N.eqb_spec i' i); [contradiction|]. exact G1. }
+  unfold sb_delete. rewrite sb_reps_dem in Hr1. unfold sb_reps in Hw1.
+  destruct (sb_rep (n_sb nd)) as [r|] eqn:Hrep.
+  - cbn [optl flat_map app] in Hw1. rewrite app_nil_r in Hw1. cbn [app] in Hr1.
+    destruct (rep_delete_ok r _ [] st1 Hr1 Hw1) as (st' & E' & R' & W' & H' & T').
+    exists st'. split; [exact E'|]. split; [eapply WFc_build; eauto|]. split; [exact H'|].
+    eapply tlive_same_trans; [apply tlive_tracks_eq|exact T']. reflexivity.
+  - exists st1. split; [reflexivity|]. split.
+    + eapply WFc_build; eauto using same_heavy_refl, tlive_same_refl.
+    + split; [apply same_heavy_refl|apply tlive_tracks_eq; reflexivity].
+Qed.
+
+(* ------------------------------------------------------------------ *)
+(* updates that keep the node lists                                     *)
+
+Lemma WFc_set_impl_flags st i im im' :
+  WFc st -> aget i (impls st) = Some im -> i_nodes im' = i_nodes im -> WFc (set_impl i im' st).
+Proof.
+  intros [Hs Hr Hg Hw] Hi En.
+  assert (E1 : i_nodes im = i_nodes im ++ [] ++ []) by (rewrite !app_nil_r; reflexivity).
+  assert (E2 : i_nodes im' = i_nodes im ++ [] ++ []) by (rewrite !app_nil_r; exact En).
+  destruct (set_impl_nodes_reps st i im im' _ _ _ _ Hi E1 E2) as (L & R & Ea & Ea').
+  constructor.
+  - eapply (WFstruct_set_impl st i im im' (i_nodes im) [] [] []); eauto.
+    + rewrite En. exact (proj1 (ws_nodes _ Hs i im Hi)).
+    + constructor.
+    + apply reps_upd_nil.
+  - rewrite Ea', <- Ea. eapply regs_tracks_eq; [|exact Hr]. reflexivity.
+  - apply sig_ok_set_impl. exact Hg.
+  - intros w j m Hp. destruct (Hw w j m Hp) as [[]|(sb & r & G1 & G2 & G3)]. right.
+    exists sb, r. split; [|auto]. rewrite get_sb_set_impl_node. destruct (N.eqb_spec j i) as [->|]; [|exact G1].
+    rewrite En. rewrite get_sb_node, Hi in G1. exact G1.
+Qed.
+
+Lemma Casc_set_sb l sb' st : Casc st (set_sb l sb' st).
+Proof.
+  destruct (set_sb_other_fields l sb' st) as (H1 & H2 & H3 & H4 & H5 & H6 & H7 & H8).
+  constructor; [exact H1|apply tlive_tracks_eq; exact H2|].
+  intro j. destruct l as [s|i n]; unfold set_sb.
+  - cbn [impls with_slots]. destruct (aget j (impls st)); [apply impl_same_refl|exact I].
+  - destruct (aget i (impls st)) as [im|] eqn:Hi.
+    + rewrite aget_set_impl. destruct (N.eqb_spec j i) as [->|Hn].
+      * rewrite Hi. apply impl_same_ids; cbn [i_exec i_holders i_dying i_deferred i_nodes with_nodes]; auto.
+        apply ids_set_node.
+      * destruct (aget j (impls st)); [apply impl_same_refl|exact I].
+    + destruct (aget j (impls st)); [apply impl_same_refl|exact I].
+Qed.
+
+Lemma set_sb_slots_node i n sb' st : slots (set_sb (LNode i n) sb' st) = slots st.
+Proof. unfold set_sb. destruct (aget i (impls st)); reflexivity. Qed.
+
+Lemma set_sb_rep_ok_gen ex st l sb r r' b' :
+  WFstruct st -> sig_ok st -> watch_ok_ex ex st -> get_sb l st = Some sb -> sb_rep sb = Some r ->
+  r_id r' = r_id r -> (r_valid r' = true -> r_fn r' <> None) ->
+  (match l with LVar _ => rep_detached r' | LNode _ _ => True end) ->
+  (forall x, In x (r_watch r) -> In x ex \/ In x (r_watch r')) ->
+  WFstruct (set_sb l (mkSB (Some r') b') st) /\ sig_ok (set_sb l (mkSB (Some r') b') st) /\
+  watch_ok_ex ex (set_sb l (mkSB (Some r') b') st) /\
+  (exists A B, all_reps st = A ++ [r] ++ B /\ all_reps (set_sb l (mkSB (Some r') b') st) = A ++ [r'] ++ B).
+Proof.
+  intros Hs Hg Hw Hget Hrep Hid Hval Hdet Hinc.
+  set (sb' := mkSB (Some r') b'). set (st' := set_sb l sb' st).
+  destruct (all_reps_set_sb l st sb sb' Hget) as (A & B & Ea & Ea'). fold st' in Ea'.
+  unfold sb_reps in Ea, Ea'. rewrite Hrep in Ea. cbn [sb' sb_rep optl] in Ea, Ea'.
+  assert (Hgood : Forall (rep_good st) [r']).
+  { constructor; [|constructor]. split; [|exact Hval]. rewrite Hid.
+    pose proof (ws_good _ Hs) as G. rewrite Ea, !Forall_app in G. destruct G as (_ & G & _).
+    inversion G as [|? ? G1 _]; subst. exact (proj1 G1). }
+  assert (Hup : forall L R, all_reps st = L ++ [r] ++ R -> reps_upd_ok st [r] [r']).
+  { intros L R E. eapply reps_upd_same_ids; eauto using ws_rids. cbn [map]. rewrite Hid. reflexivity. }
+  split; [|split; [|split]].
+  - destruct l as [s|i n].
+    + apply get_sb_var_inv in Hget.
+      change st' with (with_slots (aset s (Some sb') (slots st)) st).
+      eapply WFstruct_set_slot; eauto.
+      * cbn [slot_reps]. unfold sb_reps. rewrite Hrep. cbn [sb' sb_rep optl]. eapply Hup; eauto.
+      * cbn [slot_reps sb_reps sb' sb_rep optl]. constructor; [exact Hdet|constructor].
+    + destruct (get_sb_node_inv _ _ _ _ Hget) as (im & nd & Hi & Hf & Hsb). subst sb.
+      destruct (find_node_split _ _ _ Hf) as (l1 & l2 & En & Hn1 & Hnid).
+      unfold st', set_sb. rewrite Hi.
+      eapply (WFstruct_set_impl st i im _ l1 [nd] [mkNode n sb'] l2); eauto.
+      * cbn [i_nodes with_nodes]. rewrite En. rewrite (set_node_split _ _ _ _ _ Hn1 Hnid). reflexivity.
+      * cbn [i_nodes with_nodes]. rewrite ids_set_node. exact (proj1 (ws_nodes _ Hs i im Hi)).
+      * cbn [ids map n_id]. constructor; [|constructor].
+        destruct (ws_nodes _ Hs i im Hi) as (_ & F). rewrite En in F. unfold ids in F.
+        rewrite map_app, Forall_app in F. destruct F as (_ & F). cbn [map] in F. inversion F as [|? ? F1 F2]. rewrite <- Hnid. exact F1.
+      * cbn [nodes_reps flat_map n_sb]. rewrite !app_nil_r. unfold sb_reps. rewrite Hrep. cbn [sb' sb_rep optl].
+        eapply Hup; eauto.
+  - unfold st'. destruct (set_sb_other_fields l sb' st) as (H1 & H2 & _).
+    eapply sig_ok_transfer; [exact H1|apply tlive_tracks_eq; exact H2| |exact Hg].
+    intro j. apply (Casc_impl_present _ _ j (Casc_set_sb l sb' st)).
+  - intros w j m Hp. destruct (set_sb_other_fields l sb' st) as (_ & _ & H3 & H4 & _).
+    unfold st' in Hp. rewrite (get_connptr_eq _ _ _ H3 H4) in Hp.
+    destruct (Hw w j m Hp) as [X|(sb0 & r0 & G1 & G2 & G3)]; [left; exact X|].
+    destruct (loc_eqb_spec (LNode j m) l) as [El|Hnl].
+    + subst l. rewrite Hget in G1. inversion G1; subst sb0. rewrite Hrep in G2. inversion G2; subst r0.
+      destruct (Hinc w G3) as [X|X]; [left; exact X|right].
+      exists sb', r'. split; [apply (get_set_sb_same _ _ _ _ Hget)|]. split; [reflexivity|exact X].
+    + right. exists sb0, r0. split; [|auto]. unfold st'. rewrite get_set_sb_other by assumption. exact G1.
+  - exists A, B. split; assumption.
+Qed.
+
+Lemma set_sb_rep_ok st l sb r r' b' :
+  WFc st -> get_sb l st = Some sb -> sb_rep sb = Some r ->
+  r_id r' = r_id r -> (r_valid r' = true -> r_fn r' <> None) ->
+  (match l with LVar _ => rep_detached r' | LNode _ _ => True end) ->
+  incl (r_watch r) (r_watch r') ->
+  WFstruct (set_sb l (mkSB (Some r') b') st) /\ sig_ok (set_sb l (mkSB (Some r') b') st) /\
+  watch_ok (set_sb l (mkSB (Some r') b') st) /\
+  (exists A B, all_reps st = A ++ [r] ++ B /\ all_reps (set_sb l (mkSB (Some r') b') st) = A ++ [r'] ++ B).
+Proof.
+  intros [Hs Hr Hg Hw] Hget Hrep Hid Hval Hdet Hinc.
+  eapply set_sb_rep_ok_gen; eauto.
+Qed.
+
+(* a rep update that keeps id, functor and watchers: full WFc *)
+Lemma set_sb_benign_ok st l sb r r' b' :
+  WFc st -> get_sb l st = Some sb -> sb_rep sb = Some r ->
+  r_id r' = r_id r -> r_fn r' = r_fn r -> (r_valid r' = true -> r_valid r = true) ->
+  (match l with LVar _ => rep_detached r' | LNode _ _ => True end) ->
+  incl (r_watch r) (r_watch r') ->
+  WFc (set_sb l (mkSB (Some r') b') st).
+Proof.
+  intros Hc Hget Hrep Hid Hfn Hval Hdet Hinc.
+  assert (Hv : r_valid r' = true -> r_fn r' <> None).
+  { intro V. rewrite Hfn. destruct (all_reps_set_sb l st sb sb Hget) as (A & B & Ea & _).
+    pose proof (ws_good _ (wc_struct _ Hc)) as G. rewrite Ea, !Forall_app in G. destruct G as (_ & G & _).
+    unfold sb_reps in G. rewrite Hrep in G. inversion G as [|? ? G1 _]; subst. apply (proj2 G1). auto. }
+  destruct (set_sb_rep_ok st l sb r r' b' Hc Hget Hrep Hid Hv Hdet Hinc) as (S1 & S2 & S3 & A & B & Ea & Ea').
+  constructor; auto. rewrite Ea'.
+  eapply regs_tracks_eq; [apply (set_sb_other_fields l _ st)|].
+  eapply regs_dem_eq; [|exact (wc_regs _ Hc)]. intros t rid. rewrite Ea, !dem_of_app, !dem_app.
+  cbn [dem_of map dem]. unfold refs_of. rewrite Hid, Hfn. reflexivity.
+Qed.
+
+(* ------------------------------------------------------------------ *)
+(* parent_cleanup, rep_disconnect, rep_destroy, rep_invalidated         *)
+
+Lemma phc_del_node n l : (phc (ids (del_node n l)) <= phc (ids l))%nat.
+Proof.
+  unfold phc, ids. induction l as [|x l IH]; cbn [del_node map filter length]; [lia|].
+  destruct (nid_eqb (n_id x) n); cbn [map filter]; destruct (nid_is_ph (n_id x)); cbn [length]; lia.
+Qed.
+
+Lemma Casc_of_set_impl st st' i im im' :
+  aget i (impls st) = Some im -> impl_same im im' ->
+  same_heavy (set_impl i im' st) st' -> tlive_same st st' -> Casc st st'.
+Proof.
+  intros Hi Hsame [] T. cbn [set_impl slots sigs next_rid next_nid next_iid next_ph with_impls] in *.
+  constructor; [assumption|assumption|].
+  intro j. rewrite sh_impls0, aget_set_impl. destruct (N.eqb_spec j i) as [->|Hn].
+  - rewrite Hi. exact Hsame.
+  - destruct (aget j (impls st)); [apply impl_same_refl|exact I].
+Qed.
+
+Lemma WFstruct_keys_ok st : WFstruct st -> keys_ok st.
+Proof.
+  intros []. split; [assumption|]. split; [assumption|]. intros i im H. exact (proj1 (ws_nodes0 i im H)).
+Qed.
+
+(* "nothing else moved": slot bases at other locations are untouched *)
+Definition others_same (l : loc) (st st' : state) : Prop :=
+  (forall l', l' <> l -> get_sb l' st' = get_sb l' st) /\
+  (forall j, (forall n, l <> LNode j n) -> aget j (impls st') = aget j (impls st)).
+
+Lemma others_same_refl l st : others_same l st st.
+Proof. split; intros; reflexivity. Qed.
+
+Lemma get_sb_heavy st st' l : same_heavy st st' -> get_sb l st' = get_sb l st.
+Proof. intros []. destruct l; unfold get_sb; rewrite ?sh_slots0, ?sh_impls0; reflexivity. Qed.
+
+Lemma get_sb_set_impl_var i im' st s : get_sb (LVar s) (set_impl i im' st) = get_sb (LVar s) st.
+Proof. reflexivity. Qed.
+
+Lemma parent_cleanup_ok i n st :
+  WFc st -> (forall im, aget i (impls st) = Some im -> find_node n (i_nodes im) <> None) ->
+  exists st', parent_cleanup i n st = Ok st' /\ WFc st' /\ Casc st st' /\ others_same (LNode i n) st st'.
+Proof.
+  intros Hc Hn. unfold parent_cleanup. destruct (aget i (impls st)) as [im|] eqn:Hi.
+  2:{ exists st. split; [reflexivity|]. split; [exact Hc|]. split; [apply Casc_refl|apply others_same_refl]. }
+  destruct (i_dying im) eqn:Hd.
+  { exists st. split; [reflexivity|]. split; [exact Hc|]. split; [apply Casc_refl|apply others_same_refl]. }
+  destruct (N.eqb_spec (i_exec im) 0) as [He|He].
+  - destruct (find_node n (i_nodes im)) as [nd|] eqn:Hf; [|exfalso; exact (Hn im eq_refl Hf)].
+    destruct (erase_node_ok i n st im nd Hc Hi Hf) as (st' & E & W & Hh & T).
+    exists st'. split; [exact E|]. split; [exact W|]. split.
+    + eapply Casc_of_set_impl; eauto. unfold impl_same. cbn [i_exec i_holders i_dying i_deferred i_nodes with_nodes].
+      repeat split; auto; [lia|apply phc_del_node].
+    + split.
+      * intros l' Hl'. rewrite (get_sb_heavy _ _ _ Hh). destruct l' as [s|j m]; [reflexivity|].
+        rewrite get_sb_set_impl_node. destruct (N.eqb_spec j i) as [->|Hne]; [|reflexivity].
+        cbn [i_nodes with_nodes]. rewrite find_node_del_other by congruence.
+        rewrite get_sb_node, Hi. reflexivity.
+      * intros j Hj. destruct Hh. rewrite sh_impls0, aget_set_impl.
+        destruct (N.eqb_spec j i) as [->|Hne]; [exfalso; exact (Hj n eq_refl)|reflexivity].
+  - eexists. split; [reflexivity|]. split; [eapply WFc_set_impl_flags; eauto|]. split.
+    + eapply Casc_of_set_impl; eauto using same_heavy_refl.
+      * apply impl_same_ids; cbn [i_exec i_holders i_dying i_deferred i_nodes with_deferred]; auto.
+        intro X. contradiction.
+      * apply tlive_tracks_eq. reflexivity.
+    + split.
+      * intros l' _. destruct l' as [s|j m]; [reflexivity|].
+        rewrite get_sb_set_impl_node. destruct (N.eqb_spec j i) as [->|Hne]; [|reflexivity].
+        cbn [i_nodes with_deferred]. rewrite get_sb_node, Hi. reflexivity.
+      * intros j Hj. rewrite aget_set_impl.
+        destruct (N.eqb_spec j i) as [->|Hne]; [exfalso; exact (Hj n eq_refl)|reflexivity].
+Qed.
+
+Lemma get_rep_inv l st r : get_rep l st = Some r -> exists sb, get_sb l st = Some sb /\ sb_rep sb = Some r.
+Proof. unfold get_rep. destruct (get_sb l st) as [sb|]; [|discriminate]. intro H. eauto. Qed.
+
+Lemma var_rep_detached st s sb r : WFstruct st -> get_sb (LVar s) st = Some sb -> sb_rep sb = Some r ->
+  rep_detached r.
+Proof.
+  intros Hs Hg Hr. pose proof (get_sb_in_reps _ _ _ _ Hg Hr) as Hin. cbn in Hin.
+  pose proof (ws_vars _ Hs) as F. rewrite Forall_forall in F. exact (F r Hin).
+Qed.
+
+Lemma others_same_trans l a b c : others_same l a b -> others_same l b c -> others_same l a c.
+Proof.
+  intros [H1 I1] [H2 I2]. split.
+  - intros l' Hn. rewrite (H2 l' Hn). apply H1. exact Hn.
+  - intros j Hj. rewrite (I2 j Hj). apply I1. exact Hj.
+Qed.
+
+Lemma others_same_set_sb l sb st : others_same l st (set_sb l sb st).
+Proof.
+  split.
+  - intros l' Hn. apply get_set_sb_other. exact Hn.
+  - intros j Hj. destruct l as [s|i n]; unfold set_sb; [reflexivity|].
+    destruct (aget i (impls st)) eqn:Hi; [|reflexivity]. rewrite aget_set_impl.
+    destruct (N.eqb_spec j i) as [->|Hne]; [exfalso; exact (Hj n eq_refl)|reflexivity].
+Qed.
+
+Lemma rep_disconnect_ok l st : WFc st ->
+  exists st', rep_disconnect l st = Ok st' /\ WFc st' /\ Casc st st' /\ others_same l st st'.
+Proof.
+  intro Hc. unfold rep_disconnect. destruct (get_rep l st) as [r|] eqn:Hg.
+  2:{ exists st. split; [reflexivity|]. split; [exact Hc|]. split; [apply Casc_refl|apply others_same_refl]. }
+  destruct (get_rep_inv _ _ _ Hg) as (sb & Hsb & Hrep).
+  unfold set_rep. rewrite Hsb.
+  destruct (r_attached r) eqn:Hatt.
+  - destruct l as [s|i n].
+    + exfalso. destruct (var_rep_detached _ _ _ _ (wc_struct _ Hc) Hsb Hrep) as (X & _). congruence.
+    + set (r' := r_with_attached false (r_with_valid false r)).
+      assert (Hc1 : WFc (set_sb (LNode i n) (mkSB (Some r') (sb_blocked sb)) st)).
+      { eapply set_sb_benign_ok; eauto; try reflexivity; [discriminate|apply incl_refl]. }
+      destruct (parent_cleanup_ok i n _ Hc1) as (st' & E & W & C & O).
+      { intros im Him. pose proof (get_set_sb_same _ _ _ (mkSB (Some r') (sb_blocked sb)) Hsb) as G.
+        rewrite get_sb_node, Him in G. destruct (find_node n (i_nodes im)); discriminate. }
+      exists st'. split; [exact E|]. split; [exact W|]. split.
+      * eapply Casc_trans; [apply Casc_set_sb|exact C].
+      * eapply others_same_trans; [apply others_same_set_sb|exact O].
+  - eexists. split; [reflexivity|]. split.
+    + eapply set_sb_benign_ok; eauto; try reflexivity; [discriminate| |apply incl_refl].
+      destruct l as [s|i n]; [|exact I].
+      destruct (var_rep_detached _ _ _ _ (wc_struct _ Hc) Hsb Hrep) as (X & Y). split; assumption.
+    + split; [apply Casc_set_sb|apply others_same_set_sb].
+Qed.
+
+Definition rid_dead (rid : N) (st : state) : Prop :=
+  forall r, In r (all_reps st) -> r_id r = rid -> r_fn r = None.
+
+Lemma NoDup_map_mid_unique {A B} (f : A -> B) a x b y :
+  NoDup (map f (a ++ [x] ++ b)) -> In y (a ++ [x] ++ b) -> f y = f x -> y = x.
+Proof.
+  intros Hnd Hin E. rewrite !map_app in Hnd. cbn [map app] in Hnd.
+  pose proof (NoDup_remove_2 _ _ _ Hnd) as Hn.
+  rewrite !in_app_iff in Hin. cbn [In] in Hin. destruct Hin as [Hin|[[Hin|[]]|Hin]]; [|auto|];
+    exfalso; apply Hn; rewrite <- E; apply in_or_app; [left|right]; apply in_map; exact Hin.
+Qed.
+
+Lemma rep_destroy_ok l st : WFc st ->
+  exists st', rep_destroy l st = Ok st' /\ WFc st' /\ Casc st st' /\
+              (forall r, get_rep l st = Some r -> rid_dead (r_id r) st').
+Proof.
+  intro Hc. unfold rep_destroy. destruct (get_rep l st) as [r|] eqn:Hg.
+  2:{ exists st. split; [reflexivity|]. split; [exact Hc|]. split; [apply Casc_refl|]. intros r H. discriminate. }
+  destruct (get_rep_inv _ _ _ Hg) as (sb & Hsb & Hrep).
+  unfold set_rep. rewrite Hsb.
+  set (r0 := r_with_fn None (r_with_valid false r)).
+  set (st1 := set_sb l (mkSB (Some r0) (sb_blocked sb)) st).
+  assert (Hdet : match l with LVar _ => rep_detached r0 | LNode _ _ => True end).
+  { destruct l as [s|i n]; [|exact I]. exact (var_rep_detached _ _ _ _ (wc_struct _ Hc) Hsb Hrep). }
+  assert (Hv0 : r_valid r0 = true -> r_fn r0 <> None) by discriminate.
+  destruct (set_sb_rep_ok st l sb r r0 (sb_blocked sb) Hc Hsb Hrep eq_refl Hv0 Hdet (incl_refl _))
+    as (S1 & S2 & S3 & A & B & Ea & Ea1).
+  fold st1 in S1, S2, S3, Ea1.
+  assert (R1 : regs ((r_id r, refs_of r) :: dem_of (all_reps st1)) st1).
+  { eapply regs_tracks_eq; [apply (set_sb_other_fields l _ st)|].
+    eapply regs_dem_eq; [|exact (wc_regs _ Hc)]. intros t rid. rewrite Ea, Ea1, dem_cons, !dem_of_app, !dem_app.
+    cbn [dem_of map dem]. assert (X1 : refs_of r0 = []) by reflexivity. assert (X2 : r_id r0 = r_id r) by reflexivity.
+    rewrite X1, X2. cbn [count_occ]. destruct (N.eqb (r_id r) rid); lia. }
+  assert (Hu : exists st2, match r_fn r with Some f => unbind_all (r_id r) (f_refs f) st1 | None => Ok st1 end = Ok st2 /\
+             regs (dem_of (all_reps st1)) st2 /\ same_heavy st1 st2 /\ tlive_same st1 st2 /\ conns st2 = conns st1 /\ sconns st2 = sconns st1).
+  { unfold refs_of in R1. destruct (r_fn r) as [f|].
+    - apply unbind_all_ok. exact R1.
+    - exists st1. split; [reflexivity|]. split; [eapply regs_drop_nil; eauto|].
+      split; [apply same_heavy_refl|split; [apply tlive_same_refl|split; reflexivity]]. }
+  destruct Hu as (st2 & E2 & R2 & H2 & T2 & C2 & K2). exists st2. split; [exact E2|].
+  split; [|split].
+  - eapply WFc_build; eauto. eapply watch_ok_ex_transfer; [| | |exact S3]; [destruct H2|..]; assumption.
+  - apply Casc_trans with (b := st1); [unfold st1; apply Casc_set_sb|]. apply Casc_heavy; assumption.
+  - intros r1 Hr1 x Hx Hxid. inversion Hr1; subst r1. rewrite (all_reps_heavy _ _ H2), Ea1 in Hx.
+    assert (x = r0).
+    { eapply (NoDup_map_mid_unique r_id); [|exact Hx|exact Hxid]. rewrite <- Ea1. exact (ws_rids _ S1). }
+    subst x. reflexivity.
+Qed.
+
+Lemma rep_invalidated_ok rid st : WFc st -> (exists r, In r (all_reps st) /\ r_id r = rid) ->
+  exists st', rep_invalidated rid st = Ok st' /\ WFc st' /\ Casc st st' /\ rid_dead rid st'.
+Proof.
+  intros Hc (r & Hin & Hid). unfold rep_invalidated.
+  destruct (find_rep rid st) as [l|] eqn:Hf; [|exfalso; subst rid; exact (find_rep_complete _ _ Hin Hf)].
+  destruct (rep_disconnect_ok l st Hc) as (st1 & E1 & W1 & C1 & _). rewrite E1. cbn [rbind].
+  destruct (find_rep rid st1) as [l'|] eqn:Hf1.
+  - destruct (find_rep_sound _ _ _ (WFstruct_keys_ok _ (wc_struct _ W1)) Hf1) as (sb & r1 & G1 & G2 & G3).
+    destruct (rep_destroy_ok l' st1 W1) as (st2 & E2 & W2 & C2 & D2).
+    exists st2. split; [exact E2|]. split; [exact W2|]. split; [eapply Casc_trans; eauto|].
+    rewrite <- G3. apply D2. unfold get_rep. rewrite G1. exact G2.
+  - exists st1. split; [reflexivity|]. split; [exact W1|]. split; [exact C1|].
+    intros x Hx Hxid. exfalso. exact (find_rep_none _ _ Hf1 x Hx Hxid).
+Qed.
+
+(* ------------------------------------------------------------------ *)
+(* track_round, track_notify                                            *)
+
+Lemma regs_rep_exists t rid st : (0 < dem t rid (dem_of (all_reps st)))%nat ->
+  exists r, In r (all_reps st) /\ r_id r = rid /\ In t (refs_of r).
+Proof.
+  intro H. destruct (dem_pos_in _ _ _ H) as (refs & Hin & Ht).
+  unfold dem_of in Hin. apply in_map_iff in Hin. destruct Hin as (r & E & Hr). inversion E; subst.
+  exists r. auto.
+Qed.
+
+Lemma rid_dead_dem t rid st : rid_dead rid st -> dem t rid (dem_of (all_reps st)) = O.
+Proof.
+  intro Hd. destruct (dem t rid (dem_of (all_reps st))) eqn:E; [reflexivity|].
+  destruct (regs_rep_exists t rid st) as (r & Hin & Hid & Ht); [lia|].
+  unfold refs_of in Ht. rewrite (Hd r Hin Hid) in Ht. destruct Ht.
+Qed.
+
+Lemma track_round_ok fuel : forall i t st tr,
+  WFc st -> live_track t st = Some tr -> t_clearing tr = true ->
+  length (tl_of tr) = (i + fuel)%nat ->
+  (forall j d f, (j < i)%nat -> nth_error (tl_of tr) j = Some (d, f) -> f = false) ->
+  exists st', track_round fuel i t st = Ok st' /\ WFc st' /\ Casc st st' /\
+     exists tr', live_track t st' = Some tr' /\
+                 (forall j d f, nth_error (tl_of tr') j = Some (d, f) -> f = false).
+Proof.
+  induction fuel as [|fuel IH]; intros i t st tr Hc Hl Hcl Hlen Hpre; cbn [track_round].
+  - exists st. split; [reflexivity|]. split; [exact Hc|]. split; [apply Casc_refl|].
+    exists tr. split; [exact Hl|]. intros j d f Hj. apply (Hpre j d f); [|exact Hj].
+    assert (j < length (tl_of tr))%nat by (apply nth_error_Some; congruence). lia.
+  - rewrite Hl. destruct (t_list tr) as [l|] eqn:Hlist.
+    2:{ unfold tl_of in Hlen. rewrite Hlist in Hlen. cbn [length] in Hlen. lia. }
+    assert (El : tl_of tr = l) by (unfold tl_of; rewrite Hlist; reflexivity). rewrite El in *.
+    destruct (nth_error l i) as [[rid f]|] eqn:Hnth.
+    2:{ apply nth_error_None in Hnth. lia. }
+    destruct f.
+    + (* a live entry: deliver *)
+      assert (Hex : exists r, In r (all_reps st) /\ r_id r = rid).
+      { destruct (regs_rep_exists t rid st) as (r & A & B & _); [|eauto].
+        rewrite <- (proj2 (wc_regs _ Hc) t tr Hl rid), El. eapply cnt_pos_nth; eauto. }
+      destruct (rep_invalidated_ok rid st Hc Hex) as (st1 & E1 & W1 & C1 & D1).
+      rewrite E1. cbn [rbind].
+      destruct (ca_tracks _ _ C1 t) as (_ & Eo & Hn). destruct (Hn tr Hl Hcl) as (tr1 & Hl1 & (Nlen & Nnth)).
+      rewrite El in Nlen, Nnth.
+      assert (Hcl1 : t_clearing tr1 = true).
+      { rewrite Hl, Hl1 in Eo. cbn [option_map] in Eo. congruence. }
+      destruct (IH (S i) t st1 tr1 W1 Hl1 Hcl1) as (st2 & E2 & W2 & C2 & tr2 & Hl2 & F2).
+      * rewrite Nlen. lia.
+      * intros j d f Hj Hjn. destruct (Nat.eq_dec j i) as [->|Hne].
+        -- destruct (Nnth _ _ _ Hnth) as (f' & Hf' & _). rewrite Hf' in Hjn. inversion Hjn; subst d f'.
+           destruct f; [|reflexivity]. exfalso.
+           pose proof (cnt_pos_nth _ _ _ Hf') as Hpos.
+           rewrite (proj2 (wc_regs _ W1) t tr1 Hl1 rid) in Hpos. rewrite (rid_dead_dem t rid st1 D1) in Hpos. lia.
+        -- destruct (nth_error l j) as [[d0 f0]|] eqn:Hj0.
+           ++ destruct (Nnth _ _ _ Hj0) as (f' & Hf' & Hff). rewrite Hf' in Hjn. inversion Hjn; subst d f'.
+              apply Hff. apply (Hpre j d0 f0); [lia|exact Hj0].
+           ++ apply nth_error_None in Hj0. assert (j < length (tl_of tr1))%nat by (apply nth_error_Some; congruence). lia.
+      * exists st2. split; [exact E2|]. split; [exact W2|]. split; [eapply Casc_trans; eauto|]. eauto.
+    + destruct (IH (S i) t st tr Hc Hl Hcl) as (st2 & E2 & W2 & C2 & X).
+      * rewrite El. lia.
+      * rewrite El. intros j d f Hj Hjn. destruct (Nat.eq_dec j i) as [->|Hne].
+        -- rewrite Hnth in Hjn. inversion Hjn. reflexivity.
+        -- apply (Hpre j d f); [lia|exact Hjn].
+      * exists st2. auto.
+Qed.
+
+Lemma regs_set_track_same D t tr tr' st : live_track t st = Some tr -> tl_of tr' = tl_of tr ->
+  regs D st -> regs D (set_track t tr' st).
+Proof.
+  intros Hl El [R1 R2]. split.
+  - intros t' rid H. rewrite live_set_track. destruct (N.eqb t' t); [discriminate|eauto].
+  - intros t' tr0 H rid. rewrite live_set_track in H. destruct (N.eqb_spec t' t) as [->|Hn].
+    + inversion H; subst tr0. rewrite El. eauto.
+    + eauto.
+Qed.
+
+Lemma sig_ok_set_track t tr tr0 st : live_track t st = Some tr0 -> sig_ok st -> sig_ok (set_track t tr st).
+Proof.
+  intros Hl [H1 H2]. split.
+  - intro g. destruct (H1 g) as [A B]. split.
+    + rewrite live_set_track. destruct (N.eqb_spec (trackable_of_sig g) t) as [E|Hn]; [|exact A].
+      split; [intros _|discriminate]. apply A. rewrite E, Hl. discriminate.
+    + intro X. unfold set_track. cbn [tracks with_tracks]. rewrite aget_aset.
+      destruct (N.eqb_spec (trackable_of_sig g) t) as [E|Hn]; [|auto]. exfalso.
+      specialize (B X). rewrite E in B. unfold live_track in Hl. rewrite B in Hl. discriminate.
+  - exact H2.
+Qed.
+
+Lemma WFc_set_track_same t tr tr' st : WFc st -> live_track t st = Some tr -> tl_of tr' = tl_of tr ->
+  WFc (set_track t tr' st).
+Proof.
+  intros [Hs Hr Hg Hw] Hl El. constructor.
+  - eapply WFstruct_heavy; [apply set_track_heavy|exact Hs].
+  - rewrite (all_reps_heavy _ _ (set_track_heavy t tr' st)). eapply regs_set_track_same; eauto.
+  - eapply sig_ok_set_track; eauto.
+  - eapply watch_ok_ex_transfer; [| | |exact Hw]; reflexivity.
+Qed.
+
+Lemma track_notify_ok t st : WFc st -> noclear st ->
+  exists st', track_notify t st = Ok st' /\ WFc st' /\ Casc st st' /\ noclear st' /\
+     (forall rid, dem t rid (dem_of (all_reps st')) = O).
+Proof.
+  intros Hc Hnc. unfold track_notify. destruct (live_track t st) as [tr|] eqn:Hl.
+  2:{ exists st. split; [reflexivity|]. split; [exact Hc|]. split; [apply Casc_refl|]. split; [exact Hnc|].
+      intro rid. destruct (dem t rid (dem_of (all_reps st))) eqn:E; [reflexivity|].
+      exfalso. apply (proj1 (wc_regs _ Hc) t rid); [lia|exact Hl]. }
+  destruct (t_list tr) as [l|] eqn:Hlist.
+  2:{ exists st. split; [reflexivity|]. split; [exact Hc|]. split; [apply Casc_refl|]. split; [exact Hnc|].
+      intro rid. rewrite <- (proj2 (wc_regs _ Hc) t tr Hl rid). unfold tl_of. rewrite Hlist. reflexivity. }
+  set (tr1 := mkTr (Some l) true). set (st1 := set_track t tr1 st).
+  assert (El : tl_of tr1 = tl_of tr) by (unfold tl_of; rewrite Hlist; reflexivity).
+  assert (Hc1 : WFc st1) by (eapply WFc_set_track_same; eauto).
+  assert (Hl1 : live_track t st1 = Some tr1) by (unfold st1; rewrite live_set_track, N.eqb_refl; reflexivity).
+  destruct (track_round_ok (length l) 0 t st1 tr1 Hc1 Hl1 eq_refl) as (st2 & E2 & W2 & C2 & tr2 & Hl2 & F2).
+  { reflexivity. } { intros j d f Hj. lia. }
+  rewrite E2. cbn [rbind]. eexists. split; [reflexivity|].
+  assert (Hc' : WFc (set_track t (mkTr None false) st2)).
+  { destruct W2 as [Hs Hr Hg Hw]. constructor.
+    - eapply WFstruct_heavy; [apply set_track_heavy|exact Hs].
+    - rewrite (all_reps_heavy _ _ (set_track_heavy t _ st2)). destruct Hr as [R1 R2]. split.
+      + intros t' rid H. rewrite live_set_track. destruct (N.eqb t' t); [discriminate|eauto].
+      + intros t' tr0 H rid. rewrite live_set_track in H. destruct (N.eqb_spec t' t) as [->|Hn]; [|eauto].
+        inversion H; subst tr0. rewrite <- (R2 t tr2 Hl2 rid). unfold tl_of at 1. cbn [t_list cnt filter length].
+        symmetry. apply cnt_zero_all_false. exact F2.
+    - eapply sig_ok_set_track; eauto.
+    - eapply watch_ok_ex_transfer; [| | |exact Hw]; reflexivity. }
+  assert (Hcasc : Casc st (set_track t (mkTr None false) st2)).
+  { destruct C2. constructor; [exact ca_sigs0| |exact ca_impls0].
+    intro t'. destruct (ca_tracks0 t') as (A & B & _). split; [|split].
+    - unfold set_track. cbn [tracks with_tracks]. rewrite aget_aset. destruct (N.eqb_spec t' t) as [->|Hn].
+        * unfold live_track in Hl. destruct (aget t (tracks st)) as [[x|]|]; try discriminate. split; discriminate.
+        * rewrite A. unfold st1, set_track. cbn [tracks with_tracks]. rewrite aget_aset_other by assumption. reflexivity.
+    - rewrite live_set_track. destruct (N.eqb_spec t' t) as [->|Hn].
+        * rewrite Hl. cbn [option_map t_clearing]. rewrite (Hnc _ _ Hl). reflexivity.
+        * rewrite B. unfold st1. rewrite live_set_track. destruct (N.eqb_spec t' t); [contradiction|reflexivity].
+    - intros tr0 H0 Hcl0. rewrite (Hnc _ _ H0) in Hcl0. discriminate. }
+  split; [exact Hc'|]. split; [exact Hcasc|]. split; [eapply tlive_noclear; [exact (ca_tracks _ _ Hcasc)|exact Hnc]|].
+  intro rid. rewrite <- (proj2 (wc_regs _ Hc') t (mkTr None false)); [reflexivity|].
+  rewrite live_set_track, N.eqb_refl. reflexivity.
+Qed.
+
+(* ------------------------------------------------------------------ *)
+(* generic set_sb for WFstruct; pending reps                            *)
+
+Lemma WFstruct_set_sb st l sb sb' :
+  WFstruct st -> get_sb l st = Some sb ->
+  reps_upd_ok st (sb_reps sb) (sb_reps sb') ->
+  (match l with LVar _ => Forall rep_detached (sb_reps sb') | LNode _ _ => True end) ->
+  WFstruct (set_sb l sb' st).
+Proof.
+  intros Hs Hget Hup Hdet. destruct l as [s|i n].
+  - apply get_sb_var_inv in Hget.
+    change (set_sb (LVar s) sb' st) with (with_slots (aset s (Some sb') (slots st)) st).
+    eapply WFstruct_set_slot; eauto.
+  - destruct (get_sb_node_inv _ _ _ _ Hget) as (im & nd & Hi & Hf & Hsb). subst sb.
+    destruct (find_node_split _ _ _ Hf) as (l1 & l2 & En & Hn1 & Hnid).
+    unfold set_sb. rewrite Hi.
+    eapply (WFstruct_set_impl st i im _ l1 [nd] [mkNode n sb'] l2); eauto.
+    + cbn [i_nodes with_nodes]. rewrite En. rewrite (set_node_split _ _ _ _ _ Hn1 Hnid). reflexivity.
+    + cbn [i_nodes with_nodes]. rewrite ids_set_node. exact (proj1 (ws_nodes _ Hs i im Hi)).
+    + cbn [ids map n_id]. constructor; [|constructor].
+      destruct (ws_nodes _ Hs i im Hi) as (_ & F). rewrite En in F. unfold ids in F.
+      rewrite map_app, Forall_app in F. destruct F as (_ & F). cbn [map] in F.
+      inversion F as [|? ? F1 F2]. rewrite <- Hnid. exact F1.
+    + cbn [nodes_reps flat_map n_sb]. rewrite !app_nil_r. exact Hup.
+Qed.
+
+Lemma sig_ok_set_sb l sb' st : sig_ok st -> sig_ok (set_sb l sb' st).
+Proof.
+  intro Hg. destruct (set_sb_other_fields l sb' st) as (H1 & H2 & _).
+  eapply sig_ok_transfer; [exact H1|apply tlive_tracks_eq; exact H2| |exact Hg].
+  intro j. apply (Casc_impl_present _ _ j (Casc_set_sb l sb' st)).
+Qed.
+
+Lemma get_connptr_set_sb l sb' st w : get_connptr w (set_sb l sb' st) = get_connptr w st.
+Proof.
+  destruct (set_sb_other_fields l sb' st) as (_ & _ & H3 & H4 & _). apply get_connptr_eq; assumption.
+Qed.
+
+(* removing / keeping the rep while the watchers of the old rep are excused *)
+Lemma watch_set_sb_ex st l sb sb' :
+  watch_ok st -> get_sb l st = Some sb ->
+  (forall r, sb_rep sb = Some r -> exists r', sb_rep sb' = Some r' /\ incl (r_watch r) (r_watch r')) ->
+  watch_ok (set_sb l sb' st).
+Proof.
+  intros Hw Hget Hk w j m Hp. rewrite get_connptr_set_sb in Hp.
+  destruct (Hw w j m Hp) as [[]|(sb0 & r0 & G1 & G2 & G3)]. right.
+  destruct (loc_eqb_spec (LNode j m) l) as [El|Hnl].
+  - subst l. rewrite Hget in G1. inversion G1; subst sb0. destruct (Hk r0 G2) as (r' & E' & Hinc).
+    exists sb', r'. split; [apply (get_set_sb_same _ _ _ _ Hget)|]. split; [exact E'|]. apply Hinc. exact G3.
+  - exists sb0, r0. split; [|auto]. rewrite get_set_sb_other by assumption. exact G1.
+Qed.
+
+Lemma watch_set_sb_out st l sb sb' :
+  watch_ok st -> get_sb l st = Some sb ->
+  watch_ok_ex (flat_map r_watch (sb_reps sb)) (set_sb l sb' st).
+Proof.
+  intros Hw Hget w j m Hp. rewrite get_connptr_set_sb in Hp.
+  destruct (Hw w j m Hp) as [[]|(sb0 & r0 & G1 & G2 & G3)].
+  destruct (loc_eqb_spec (LNode j m) l) as [El|Hnl].
+  - subst l. rewrite Hget in G1. inversion G1; subst sb0. left. unfold sb_reps. rewrite G2.
+    cbn [optl flat_map]. rewrite app_nil_r. exact G3.
+  - right. exists sb0, r0. split; [|auto]. rewrite get_set_sb_other by assumption. exact G1.
+Qed.
+
+Lemma set_sb_blocked_ok st l sb b : WFc st -> get_sb l st = Some sb ->
+  WFc (set_sb l (mkSB (sb_rep sb) b) st).
+Proof.
+  intros Hc Hget. destruct (sb_rep sb) as [r|] eqn:Hrep.
+  - eapply set_sb_benign_ok; eauto; try reflexivity; [|apply incl_refl].
+    destruct l as [s|i n]; [|exact I]. exact (var_rep_detached _ _ _ _ (wc_struct _ Hc) Hget Hrep).
+  - destruct Hc as [Hs Hr Hg Hw].
+    destruct (all_reps_set_sb l st sb (mkSB None b) Hget) as (A & B & Ea & Ea').
+    unfold sb_reps in Ea, Ea'. rewrite Hrep in Ea. cbn [sb_rep optl] in Ea, Ea'.
+    constructor.
+    + eapply WFstruct_set_sb; eauto.
+      * unfold sb_reps. cbn [sb_rep optl]. apply reps_upd_nil.
+      * destruct l; [constructor|exact I].
+    + rewrite Ea', <- Ea. eapply regs_tracks_eq; [apply (set_sb_other_fields l _ st)|exact Hr].
+    + apply sig_ok_set_sb. exact Hg.
+    + eapply watch_set_sb_ex; eauto. intros r Hr0. congruence.
+Qed.
+
+(* a slot base value [sb] that is about to be installed in the state *)
+Record WFp (sb : slotbase) (st : state) : Prop := mkWFp
+  { wp_struct : WFstruct st
+  ; wp_regs : regs (dem_of (sb_reps sb) ++ dem_of (all_reps st)) st
+  ; wp_sig : sig_ok st
+  ; wp_watch : watch_ok st
+  ; wp_pend : Forall (fun r => rep_good st r /\ rep_detached r /\ ~ In (r_id r) (map r_id (all_reps st))) (sb_reps sb) }.
+
+Lemma WFp_none st b : WFc st -> WFp (mkSB None b) st.
+Proof. intros []. constructor; auto. constructor. Qed.
+
+Lemma WFp_WFc sb st : WFp sb st -> sb_rep sb = None -> WFc st.
+Proof. intros [] E. unfold sb_reps in *. rewrite E in *. constructor; auto. Qed.
+
+Record Grow (st st' : state) : Prop := mkGrow
+  { gr_sigs : sigs st' = sigs st
+  ; gr_impls : impls st' = impls st
+  ; gr_nid : next_nid st' = next_nid st
+  ; gr_iid : next_iid st' = next_iid st
+  ; gr_ph : next_ph st' = next_ph st
+  ; gr_rid : next_rid st <= next_rid st'
+  ; gr_tracks : tlive_same st st' }.
+
+Lemma Grow_refl st : Grow st st.
+Proof. constructor; try reflexivity. apply tlive_same_refl. Qed.
+
+Lemma Grow_trans a b c : Grow a b -> Grow b c -> Grow a c.
+Proof. intros [] []. constructor; try congruence; [lia|eapply tlive_same_trans; eauto]. Qed.
+
+Lemma Grow_heavy st st' : same_heavy st st' -> tlive_same st st' -> Grow st st'.
+Proof. intros [] T. constructor; try assumption. lia. Qed.
+
+Lemma Grow_Casc st st' : Grow st st' -> Casc st st'.
+Proof.
+  intros []. constructor; [assumption|assumption|]. intro i. rewrite gr_impls0.
+  destruct (aget i (impls st)); [apply impl_same_refl|exact I].
+Qed.
+
+Lemma in_all_reps_good st r : WFstruct st -> In r (all_reps st) -> rep_good st r.
+Proof. intros Hs Hin. pose proof (ws_good _ Hs) as F. rewrite Forall_forall in F. auto. Qed.
+
+Lemma rep_clone_ok r b st : WFc st -> noclear st -> In r (all_reps st) ->
+  exists r' st1, rep_clone r st = Ok (r', st1) /\
+     r' = mkRep (next_rid st) (r_valid r) false (r_fn r) [] /\
+     WFp (mkSB (Some r') b) st1 /\ Grow st st1 /\ slots st1 = slots st.
+Proof.
+  intros [Hs Hr Hg Hw] Hnc Hin. unfold rep_clone.
+  set (rid := next_rid st). set (st0 := with_next_rid (rid + 1) st).
+  assert (Hr0 : regs (dem_of (all_reps st)) st0) by (eapply regs_tracks_eq; [|exact Hr]; reflexivity).
+  assert (Hnc0 : noclear st0) by exact Hnc.
+  assert (Hb : exists st2, match r_fn r with Some f => bind_all rid (f_refs f) st0 | None => Ok st0 end = Ok st2 /\
+      regs ((rid, refs_of r) :: dem_of (all_reps st)) st2 /\ same_heavy st0 st2 /\ tlive_same st0 st2 /\
+      conns st2 = conns st0 /\ sconns st2 = sconns st0).
+  { unfold refs_of. destruct (r_fn r) as [f|] eqn:Hfn.
+    - apply bind_all_ok; auto. intros t Ht. apply (proj1 Hr t (r_id r)).
+      eapply dem_in_pos; [|exact Ht]. unfold dem_of. apply in_map_iff. exists r. split; [|exact Hin].
+      unfold refs_of. rewrite Hfn. reflexivity.
+    - exists st0. split; [reflexivity|]. split.
+      + eapply regs_dem_eq; [|exact Hr0]. intros t x. rewrite dem_cons. cbn [count_occ]. destruct (N.eqb rid x); reflexivity.
+      + split; [apply same_heavy_refl|split; [apply tlive_same_refl|split; reflexivity]]. }
+  destruct Hb as (st2 & E2 & R2 & H2 & T2 & C2 & K2). rewrite E2. cbn [rbind].
+  eexists _, st2. split; [reflexivity|]. split; [reflexivity|].
+  assert (Hs0 : WFstruct st0).
+  { eapply WFstruct_mono; [| | | | | |exact Hs]; cbn [st0 slots impls next_rid next_nid next_iid next_ph with_next_rid]; try reflexivity; lia. }
+  assert (Ea : all_reps st2 = all_reps st) by (rewrite (all_reps_heavy _ _ H2); reflexivity).
+  assert (Hrid2 : next_rid st2 = rid + 1) by (destruct H2; assumption).
+  split; [|split].
+  - constructor.
+    + eapply WFstruct_heavy; eauto.
+    + rewrite Ea. exact R2.
+    + eapply sig_ok_transfer; [| | |exact Hg]; [destruct H2; assumption| |destruct H2; rewrite sh_impls0; auto].
+      eapply tlive_same_trans; [|exact T2]. apply tlive_tracks_eq. reflexivity.
+    + eapply watch_ok_ex_transfer; [| | |exact Hw]; [destruct H2; assumption|rewrite C2; reflexivity|rewrite K2; reflexivity].
+    + cbn [sb_reps sb_rep optl]. constructor; [|constructor]. split; [|split].
+      * unfold rep_good. cbn [r_id r_valid r_fn]. rewrite Hrid2. split; [lia|].
+        exact (proj2 (in_all_reps_good _ _ Hs Hin)).
+      * split; reflexivity.
+      * cbn [r_id]. rewrite Ea. intro X. apply in_map_iff in X. destruct X as (x & Ex & Hx).
+        pose proof (proj1 (in_all_reps_good _ _ Hs Hx)) as Y. fold rid in Y. lia.
+  - destruct H2. constructor; try assumption. rewrite Hrid2. unfold rid. lia.
+  - destruct H2. assumption.
+Qed.
+
+(* ------------------------------------------------------------------ *)
+(* slot_base value operations                                           *)
+
+Lemma get_sb_in_all_reps l st sb r : get_sb l st = Some sb -> sb_rep sb = Some r -> In r (all_reps st).
+Proof.
+  intros H Hr. pose proof (get_sb_in_reps _ _ _ _ H Hr) as X. unfold all_reps. apply in_or_app.
+  destruct l; [left|right]; exact X.
+Qed.
+
+Lemma aset_same {A} k (v : A) l : aget k l = Some v -> aset k v l = l.
+Proof.
+  intro H. destruct (aget_split _ _ _ H) as (l1 & l2 & -> & Hn). apply aset_split. exact Hn.
+Qed.
+
+Lemma set_sb_var_same s sb st : get_sb (LVar s) st = Some sb -> set_sb (LVar s) sb st = st.
+Proof.
+  intro H. apply get_sb_var_inv in H. unfold set_sb. rewrite (aset_same _ _ _ H). destruct st; reflexivity.
+Qed.
+
+Lemma sb_copy_ok l src st : WFc st -> noclear st -> get_sb l st = Some src ->
+  exists sb st1, sb_copy src st = Ok (sb, st1) /\ WFp sb st1 /\ Grow st st1 /\ slots st1 = slots st.
+Proof.
+  intros Hc Hnc Hget. unfold sb_copy. destruct (sb_rep src) as [r|] eqn:Hrep.
+  - destruct (r_valid r).
+    + destruct (rep_clone_ok r (sb_blocked src) st Hc Hnc (get_sb_in_all_reps _ _ _ _ Hget Hrep))
+        as (r' & st1 & E & _ & W & G & S).
+      rewrite E. cbn [rbind]. eexists _, st1. split; [reflexivity|]. auto.
+    + eexists _, st. split; [reflexivity|]. split; [apply WFp_none; exact Hc|]. split; [apply Grow_refl|reflexivity].
+  - eexists _, st. split; [reflexivity|]. split; [apply WFp_none; exact Hc|]. split; [apply Grow_refl|reflexivity].
+Qed.
+
+Lemma Grow_set_sb_var s sb st : Grow st (set_sb (LVar s) sb st).
+Proof. constructor; try reflexivity. apply tlive_tracks_eq. reflexivity. Qed.
+
+Lemma sb_move_var_ok s src st : WFc st -> noclear st -> get_sb (LVar s) st = Some src ->
+  exists sb src' st1, sb_move src st = Ok (sb, src', st1) /\
+     WFp sb (set_sb (LVar s) src' st1) /\ Grow st (set_sb (LVar s) src' st1).
+Proof.
+  intros Hc Hnc Hget. unfold sb_move. destruct (sb_rep src) as [r|] eqn:Hrep.
+  - destruct (var_rep_detached _ _ _ _ (wc_struct _ Hc) Hget Hrep) as (Hatt & Hwat).
+    rewrite Hatt, Hwat. cbn [null_watchers].
+    eexists _, _, st. split; [reflexivity|]. split; [|apply Grow_set_sb_var].
+    destruct Hc as [Hs Hr Hg Hw].
+    destruct (all_reps_set_sb (LVar s) st src sb_none Hget) as (A & B & Ea & Ea').
+    unfold sb_reps in Ea, Ea'. rewrite Hrep in Ea. cbn [sb_none sb_rep optl] in Ea, Ea'.
+    constructor.
+    + eapply WFstruct_set_sb; eauto; [apply reps_upd_nil|constructor].
+    + cbn [sb_reps sb_rep optl]. rewrite Ea'. cbn [app].
+      eapply regs_tracks_eq; [reflexivity|]. rewrite Ea in Hr. apply regs_mid_out in Hr. exact Hr.
+    + apply sig_ok_set_sb. exact Hg.
+    + pose proof (watch_set_sb_out st (LVar s) src sb_none Hw Hget) as X.
+      unfold sb_reps in X. rewrite Hrep in X. cbn [optl flat_map] in X. rewrite Hwat in X. exact X.
+    + cbn [sb_reps sb_rep optl]. constructor; [|constructor].
+      assert (Hin : In r (all_reps st)) by (rewrite Ea; apply in_or_app; right; left; reflexivity).
+      split; [exact (in_all_reps_good _ _ Hs Hin)|]. split; [split; [exact Hatt|reflexivity]|].
+      cbn [r_id r_with_watch]. rewrite Ea'. pose proof (ws_rids _ Hs) as N0. rewrite Ea in N0.
+      rewrite !map_app in N0. cbn [map app] in N0. apply NoDup_remove_2 in N0. rewrite map_app. exact N0.
+  - eexists _, _, st. split; [reflexivity|]. rewrite (set_sb_var_same _ _ _ Hget).
+    split; [apply WFp_none; exact Hc|apply Grow_refl].
+Qed.
+
+Lemma take_out_delete l sb r b st : WFc st -> get_sb l st = Some sb -> sb_rep sb = Some r ->
+  exists st', rep_delete r (set_sb l (mkSB None b) st) = Ok st' /\ WFc st' /\ Casc st st'.
+Proof.
+  intros [Hs Hr Hg Hw] Hget Hrep. set (st1 := set_sb l (mkSB None b) st).
+  destruct (all_reps_set_sb l st sb (mkSB None b) Hget) as (A & B & Ea & Ea'). fold st1 in Ea'.
+  unfold sb_reps in Ea, Ea'. rewrite Hrep in Ea. cbn [sb_rep optl] in Ea, Ea'.
+  assert (Hs1 : WFstruct st1).
+  { eapply WFstruct_set_sb; eauto; [apply reps_upd_nil|]. destruct l; [constructor|exact I]. }
+  assert (Hr1 : regs ((r_id r, refs_of r) :: dem_of (all_reps st1)) st1).
+  { rewrite Ea'. cbn [app]. eapply regs_tracks_eq; [apply (set_sb_other_fields l _ st)|].
+    rewrite Ea in Hr. apply regs_mid_out in Hr. exact Hr. }
+  assert (Hw1 : watch_ok_ex (r_watch r ++ []) st1).
+  { pose proof (watch_set_sb_out st l sb (mkSB None b) Hw Hget) as X.
+    unfold sb_reps in X. rewrite Hrep in X. cbn [optl flat_map] in X. exact X. }
+  destruct (rep_delete_ok r _ [] st1 Hr1 Hw1) as (st' & E' & R' & W' & H' & T').
+  exists st'. split; [exact E'|]. split.
+  - eapply WFc_build; eauto. apply sig_ok_set_sb. exact Hg.
+  - apply Casc_trans with (b := st1); [apply Casc_set_sb|apply Casc_heavy; assumption].
+Qed.
+
+Lemma delete_rep_with_check_ok l sb st : WFc st -> get_sb l st = Some sb ->
+  exists st', delete_rep_with_check l st = Ok st' /\ WFc st' /\ Casc st st'.
+Proof.
+  intros Hc Hget. unfold delete_rep_with_check. rewrite Hget.
+  destruct (sb_rep sb) as [r|] eqn:Hrep.
+  2:{ exists st. split; [reflexivity|]. split; [exact Hc|apply Casc_refl]. }
+  destruct (rep_disconnect_ok l st Hc) as (st1 & E1 & W1 & C1 & _). rewrite E1. cbn [rbind].
+  destruct (find_rep (r_id r) st1) as [l'|] eqn:Hf.
+  2:{ exists st1. split; [reflexivity|]. split; [exact W1|exact C1]. }
+  destruct (find_rep_sound _ _ _ (WFstruct_keys_ok _ (wc_struct _ W1)) Hf) as (sb1 & r1 & G1 & G2 & G3).
+  rewrite G1, G2.
+  destruct (take_out_delete l' sb1 r1 (sb_blocked sb1) st1 W1 G1 G2) as (st2 & E2 & W2 & C2).
+  exists st2. split; [exact E2|]. split; [exact W2|eapply Casc_trans; eauto].
+Qed.
+
+Lemma assign_finish d dst sbn rn r'' b st :
+  WFp sbn st -> sb_rep sbn = Some rn -> get_sb (LVar d) st = Some dst ->
+  r_id r'' = r_id rn -> r_fn r'' = r_fn rn -> r_valid r'' = r_valid rn -> rep_detached r'' ->
+  exists st2, match sb_rep dst with
+              | Some old => rep_delete (r_with_attached false old) st
+              | None => Ok st
+              end = Ok st2 /\
+     WFc (set_sb (LVar d) (mkSB (Some r'') b) st2) /\ Grow st (set_sb (LVar d) (mkSB (Some r'') b) st2).
+Proof.
+  intros [Hs Hr Hg Hw Hp] Hsbn Hget Hid Hfn Hval Hdet.
+  unfold sb_reps in Hr, Hp. rewrite Hsbn in Hr, Hp. cbn [optl] in Hr, Hp.
+  inversion Hp as [|? ? (Pg & Pd & Pf) _]; subst.
+  destruct (all_reps_set_sb (LVar d) st dst dst Hget) as (A & B & Ea & _).
+  assert (Hmid : exists st2, match sb_rep dst with
+              | Some old => rep_delete (r_with_attached false old) st
+              | None => Ok st
+              end = Ok st2 /\ regs (dem_of [rn] ++ dem_of (A ++ B)) st2 /\ watch_ok st2 /\
+              same_heavy st st2 /\ tlive_same st st2).
+  { unfold sb_reps in Ea. destruct (sb_rep dst) as [old|] eqn:Hold; cbn [optl] in Ea.
+    - destruct (var_rep_detached _ _ _ _ Hs Hget Hold) as (Oa & Ow).
+      assert (R0 : regs ((r_id old, refs_of old) :: dem_of [rn] ++ dem_of (A ++ B)) st).
+      { eapply regs_perm; [|exact Hr]. rewrite Ea, !dem_of_app. cbn [dem_of map app].
+        apply Permutation_sym. eapply Permutation_trans; [apply perm_swap|]. apply perm_skip.
+        apply Permutation_middle. }
+      destruct (rep_delete_ok (r_with_attached false old) _ [] st R0) as (st2 & E2 & R2 & W2 & H2 & T2).
+      { cbn [r_watch r_with_attached]. rewrite Ow. exact Hw. }
+      exists st2. auto.
+    - exists st. split; [reflexivity|]. split; [rewrite Ea in Hr; exact Hr|].
+      split; [exact Hw|split; [apply same_heavy_refl|apply tlive_same_refl]]. }
+  destruct Hmid as (st2 & E2 & R2 & W2 & H2 & T2). exists st2. split; [exact E2|].
+  assert (Hget2 : get_sb (LVar d) st2 = Some dst) by (rewrite (get_sb_heavy _ _ _ H2); exact Hget).
+  assert (Ea2 : all_reps st2 = all_reps st) by (apply all_reps_heavy; exact H2).
+  destruct (all_reps_set_sb (LVar d) st2 dst (mkSB (Some r'') b) Hget2) as (A' & B' & Eb & Eb').
+  assert (Hs2 : WFstruct st2) by (eapply WFstruct_heavy; eauto).
+  split.
+  - constructor.
+    + eapply WFstruct_set_sb; eauto.
+      * cbn [sb_reps sb_rep optl]. split; [constructor; [intros []|constructor]|]. split.
+        -- constructor; [|constructor]. unfold rep_good in *. rewrite Hid, Hval, Hfn.
+           destruct H2. rewrite sh_rid0. exact Pg.
+        -- intros r' [<-|[]]. right. rewrite Ea2, Hid. exact Pf.
+      * cbn [sb_reps sb_rep optl]. constructor; [exact Hdet|constructor].
+    + eapply regs_tracks_eq; [apply (set_sb_other_fields (LVar d) _ st2)|].
+      eapply regs_dem_eq; [|exact R2]. intros t rid.
+      rewrite Eb'. rewrite Ea2, Ea in Eb.
+      assert (Hd : dem t rid (dem_of (A' ++ B')) = dem t rid (dem_of (A ++ B))).
+      { assert (X : dem t rid (dem_of (A' ++ sb_reps dst ++ B')) = dem t rid (dem_of (A ++ sb_reps dst ++ B)))
+          by (rewrite Eb; reflexivity).
+        rewrite !dem_of_app, !dem_app in *. lia. }
+      rewrite !dem_of_app, !dem_app in *. cbn [sb_reps sb_rep optl dem_of map dem].
+      unfold refs_of. rewrite Hid, Hfn. lia.
+    + apply sig_ok_set_sb. eapply sig_ok_transfer; [| | |exact Hg]; [destruct H2; assumption|exact T2|].
+      destruct H2. rewrite sh_impls0. auto.
+    + eapply watch_set_sb_ex; eauto. intros r Hr0. exists r''. split; [reflexivity|].
+      destruct (var_rep_detached _ _ _ _ Hs Hget Hr0) as (_ & Ow). rewrite Ow. intros x [].
+  - eapply Grow_trans; [apply Grow_heavy; eauto|apply Grow_set_sb_var].
+Qed.
+
+Lemma steal_ok s src r b st : WFc st -> get_sb (LVar s) st = Some src -> sb_rep src = Some r ->
+  WFp (mkSB (Some (r_with_watch [] r)) b) (set_sb (LVar s) sb_none st).
+Proof.
+  intros Hc Hget Hrep.
+  destruct (var_rep_detached _ _ _ _ (wc_struct _ Hc) Hget Hrep) as (Hatt & Hwat).
+  destruct Hc as [Hs Hr Hg Hw].
+  destruct (all_reps_set_sb (LVar s) st src sb_none Hget) as (A & B & Ea & Ea').
+  unfold sb_reps in Ea, Ea'. rewrite Hrep in Ea. cbn [sb_none sb_rep optl] in Ea, Ea'.
+  constructor.
+  - eapply WFstruct_set_sb; eauto; [apply reps_upd_nil|constructor].
+  - cbn [sb_reps sb_rep optl]. rewrite Ea'. cbn [app].
+    eapply regs_tracks_eq; [reflexivity|]. rewrite Ea in Hr. apply regs_mid_out in Hr. exact Hr.
+  - apply sig_ok_set_sb. exact Hg.
+  - pose proof (watch_set_sb_out st (LVar s) src sb_none Hw Hget) as X.
+    unfold sb_reps in X. rewrite Hrep in X. cbn [optl flat_map] in X. rewrite Hwat in X. exact X.
+  - cbn [sb_reps sb_rep optl]. constructor; [|constructor].
+    assert (Hin : In r (all_reps st)) by (rewrite Ea; apply in_or_app; right; left; reflexivity).
+    split; [exact (in_all_reps_good _ _ Hs Hin)|]. split; [split; [exact Hatt|reflexivity]|].
+    cbn [r_id r_with_watch]. rewrite Ea'. pose proof (ws_rids _ Hs) as N0. rewrite Ea in N0.
+    rewrite !map_app in N0. cbn [map app] in N0. apply NoDup_remove_2 in N0. rewrite map_app. exact N0.
+Qed.
+
+Lemma same_rep_refl sb : same_rep sb sb = true.
+Proof. unfold same_rep. destruct (sb_rep sb); [apply N.eqb_refl|reflexivity]. Qed.
+
+Lemma sb_assign_ok d s st : WFc st -> noclear st ->
+  match sb_assign d s st with
+  | Ok st' => WFc st' /\ Casc st st'
+  | Err e => e = ErrUnsupported
+  end.
+Proof.
+  intros Hc Hnc. unfold sb_assign.
+  destruct (get_sb (LVar d) st) as [dst|] eqn:Hd; [|reflexivity].
+  destruct (get_sb (LVar s) st) as [src|] eqn:Hs; [|reflexivity].
+  destruct (same_rep src dst).
+  { split; [apply set_sb_blocked_ok; assumption|apply Casc_set_sb]. }
+  destruct (sb_empty src).
+  { destruct (delete_rep_with_check_ok _ _ _ Hc Hd) as (st' & E & W & C). rewrite E. auto. }
+  destruct (sb_rep src) as [r|] eqn:Hrep; [|split; [exact Hc|apply Casc_refl]].
+  destruct (rep_clone_ok r (sb_blocked src) st Hc Hnc (get_sb_in_all_reps _ _ _ _ Hs Hrep))
+    as (r' & st1 & E & Er' & W & G & S).
+  rewrite E. cbn [rbind].
+  assert (Hd1 : get_sb (LVar d) st1 = Some dst) by (rewrite get_sb_var, S; exact Hd).
+  set (r'' := match sb_rep dst with Some old => r_with_attached (r_attached old) r' | None => r' end).
+  assert (Hdet : rep_detached r'').
+  { unfold r''. destruct (sb_rep dst) as [old|] eqn:Hold.
+    - destruct (var_rep_detached _ _ _ _ (wc_struct _ Hc) Hd Hold) as (Oa & _).
+      rewrite Oa, Er'. split; reflexivity.
+    - rewrite Er'. split; reflexivity. }
+  destruct (assign_finish d dst _ r' r'' (sb_blocked src) st1 W eq_refl Hd1) as (st2 & E2 & W2 & G2);
+    try (unfold r''; destruct (sb_rep dst); reflexivity); [exact Hdet|].
+  rewrite E2. cbn [rbind]. split; [exact W2|]. apply Grow_Casc. eapply Grow_trans; eauto.
+Qed.
+
+Lemma sb_move_assign_ok d s st : WFc st -> noclear st ->
+  match sb_move_assign d s st with
+  | Ok st' => WFc st' /\ Casc st st'
+  | Err e => e = ErrUnsupported
+  end.
+Proof.
+  intros Hc Hnc. unfold sb_move_assign.
+  destruct (get_sb (LVar d) st) as [dst|] eqn:Hd; [|reflexivity].
+  destruct (get_sb (LVar s) st) as [src|] eqn:Hs; [|reflexivity].
+  destruct (same_rep src dst) eqn:Hsame.
+  { split; [apply set_sb_blocked_ok; assumption|apply Casc_set_sb]. }
+  destruct (sb_empty src).
+  { destruct (delete_rep_with_check_ok _ _ _ Hc Hd) as (st' & E & W & C). rewrite E. auto. }
+  destruct (sb_rep src) as [r|] eqn:Hrep; [|split; [exact Hc|apply Casc_refl]].
+  destruct (var_rep_detached _ _ _ _ (wc_struct _ Hc) Hs Hrep) as (Hatt & Hwat).
+  rewrite Hatt, Hwat. cbn [null_watchers rbind].
+  assert (Hne : LVar d <> LVar s).
+  { intro X. inversion X; subst d. rewrite Hd in Hs. inversion Hs; subst dst. rewrite same_rep_refl in Hsame. discriminate. }
+  pose proof (steal_ok s src r (sb_blocked src) st Hc Hs Hrep) as W.
+  set (st1 := set_sb (LVar s) sb_none st) in *.
+  assert (Hd1 : get_sb (LVar d) st1 = Some dst) by (unfold st1; rewrite get_set_sb_other by exact Hne; exact Hd).
+  set (rn := r_with_watch [] r) in *.
+  set (r'' := match sb_rep dst with Some old => r_with_attached (r_attached old) rn | None => rn end).
+  assert (Hdet : rep_detached r'').
+  { unfold r''. destruct (sb_rep dst) as [old|] eqn:Hold.
+    - destruct (var_rep_detached _ _ _ _ (wc_struct _ Hc) Hd Hold) as (Oa & _).
+      rewrite Oa. split; reflexivity.
+    - split; [exact Hatt|reflexivity]. }
+  destruct (assign_finish d dst _ rn r'' (sb_blocked src) st1 W eq_refl Hd1) as (st2 & E2 & W2 & G2);
+    try (unfold r''; destruct (sb_rep dst); reflexivity); [exact Hdet|].
+  rewrite E2. cbn [rbind]. split; [exact W2|]. apply Grow_Casc. eapply Grow_trans; [|exact G2].
+  unfold st1. apply Grow_set_sb_var.
+Qed.
+
+(* ------------------------------------------------------------------ *)
+(* installing a pending slot base                                       *)
+
+Lemma pend_upd_ok sb st :
+  Forall (fun r => rep_good st r /\ rep_detached r /\ ~ In (r_id r) (map r_id (all_reps st))) (sb_reps sb) ->
+  reps_upd_ok st [] (sb_reps sb).
+Proof.
+  intro F. unfold sb_reps in *. destruct (sb_rep sb) as [r|]; cbn [optl] in *; [|apply reps_upd_nil].
+  inversion F as [|? ? (Pg & Pd & Pf) _]; subst. split; [constructor; [intros []|constructor]|].
+  split; [constructor; [exact Pg|constructor]|]. intros r' [<-|[]]. right. exact Pf.
+Qed.
+
+Lemma new_slot_var_ok s rk sb st : WFp sb st -> aget s (slots st) = None ->
+  WFc (new_slot_var s rk sb st) /\ Grow st (new_slot_var s rk sb st).
+Proof.
+  intros [Hs Hr Hg Hw Hp] Hfresh. unfold new_slot_var.
+  set (st1 := with_slots (aset s (Some sb) (slots st)) st).
+  assert (Hs1 : WFstruct st1).
+  { apply WFstruct_new_slot; auto; cbn [slot_reps]; [apply pend_upd_ok; exact Hp|].
+    eapply Forall_impl; [|exact Hp]. intros r (_ & X & _). exact X. }
+  assert (Ea : all_reps st1 = var_reps st ++ sb_reps sb ++ node_reps st).
+  { unfold all_reps, var_reps, node_reps, st1. cbn [slots impls with_slots].
+    rewrite (var_reps_absent _ _ _ Hfresh). cbn [slot_reps]. rewrite <- app_assoc. reflexivity. }
+  assert (Hh : same_heavy st1 (with_skind (aset s rk (skind st1)) st1)) by (constructor; reflexivity).
+  split.
+  - eapply WFc_build; [exact Hs1| |exact Hh|apply tlive_tracks_eq; reflexivity| |].
+    + eapply sig_ok_transfer; [| | |exact Hg]; [reflexivity|apply tlive_tracks_eq; reflexivity|auto].
+    + eapply regs_tracks_eq; [reflexivity|]. eapply regs_perm; [|exact Hr]. rewrite Ea, !dem_of_app.
+      unfold all_reps. rewrite dem_of_app. rewrite app_assoc.
+      apply Permutation_trans with ((dem_of (var_reps st) ++ dem_of (sb_reps sb)) ++ dem_of (node_reps st)).
+      * apply Permutation_app_tail. apply Permutation_app_comm.
+      * rewrite <- app_assoc. apply Permutation_refl.
+    + eapply watch_ok_ex_transfer; [| | |exact Hw]; reflexivity.
+  - constructor; try reflexivity. apply tlive_tracks_eq. reflexivity.
+Qed.
+
+Lemma impl_insert_ok i front sb st im : WFp sb st -> aget i (impls st) = Some im ->
+  exists r st', impl_insert i front sb st = Ok (Real (next_nid st), st') /\ WFc st' /\ Casc st st' /\
+    get_sb (LNode i (Real (next_nid st))) st' = Some (mkSB (Some r) (sb_blocked sb)) /\
+    slots st' = slots st /\ sigs st' = sigs st /\ next_iid st' = next_iid st.
+Proof.
+  intros [Hs Hr Hg Hw Hp] Hi. unfold impl_insert. rewrite Hi.
+  set (n := Real (next_nid st)). set (st1 := with_next_nid (next_nid st + 1) st).
+  (* the rep that goes into the node, and the state carrying the rid counter *)
+  set (r := match sb_rep sb with Some r => r_with_attached true r | None => mkRep (next_rid st1) false true None [] end).
+  set (st2 := match sb_rep sb with Some _ => st1 | None => with_next_rid (next_rid st1 + 1) st1 end).
+  assert (Epair : (match sb_rep sb with
+                   | Some r => (r_with_attached true r, st1)
+                   | None => (mkRep (next_rid st1) false true None [], with_next_rid (next_rid st1 + 1) st1)
+                   end) = (r, st2)) by (unfold r, st2; destruct (sb_rep sb); reflexivity).
+  rewrite Epair.
+  set (nd := mkNode n (mkSB (Some r) (sb_blocked sb))).
+  set (nodes' := if front then nd :: i_nodes im else i_nodes im ++ [nd]).
+  assert (Hs2 : WFstruct st2).
+  { eapply WFstruct_mono; [| | | | | |exact Hs]; unfold st2, st1; destruct (sb_rep sb);
+      cbn [slots impls next_rid next_nid next_iid next_ph with_next_nid with_next_rid]; try reflexivity; lia. }
+  assert (Hi2 : aget i (impls st2) = Some im) by (unfold st2, st1; destruct (sb_rep sb); exact Hi).
+  assert (Ea2 : all_reps st2 = all_reps st) by (unfold st2, st1; destruct (sb_rep sb); reflexivity).
+  assert (Hnfresh : ~ In n (ids (i_nodes im))).
+  { intro X. destruct (ws_nodes _ Hs i im Hi) as (_ & F). rewrite Forall_forall in F.
+    specialize (F n X). unfold n, nid_ok in F. lia. }
+  assert (Hsplit : exists P Q, i_nodes im = P ++ [] ++ Q /\ nodes' = P ++ [nd] ++ Q).
+  { unfold nodes'. destruct front.
+    - exists [], (i_nodes im). split; reflexivity.
+    - exists (i_nodes im), []. rewrite !app_nil_r. split; reflexivity. }
+  destruct Hsplit as (P & Q & En & En').
+  set (im' := with_nodes nodes' im).
+  assert (Hup : reps_upd_ok st2 (nodes_reps []) (nodes_reps [nd])).
+  { cbn [nodes_reps flat_map nd n_sb sb_reps sb_rep optl app].
+    split; [constructor; [intros []|constructor]|]. split.
+    - constructor; [|constructor]. unfold r, st2, st1, sb_reps in *. destruct (sb_rep sb) as [r0|]; cbn [optl] in Hp.
+      + inversion Hp as [|? ? (Pg & _) _]; subst. exact Pg.
+      + split; [cbn [r_id next_rid with_next_rid with_next_nid]; lia|discriminate].
+    - intros r' [<-|[]]. right. rewrite Ea2. unfold r, st1, sb_reps in *. destruct (sb_rep sb) as [r0|]; cbn [optl] in Hp.
+      + inversion Hp as [|? ? (_ & _ & Pf) _]; subst. exact Pf.
+      + cbn [r_id next_rid with_next_nid]. intro X. apply in_map_iff in X. destruct X as (x & Ex & Hx).
+        pose proof (proj1 (in_all_reps_good _ _ Hs Hx)) as Y. lia. }
+  assert (Hs3 : WFstruct (set_impl i im' st2)).
+  { eapply (WFstruct_set_impl st2 i im im' P [] [nd] Q); eauto.
+    - cbn [im' i_nodes with_nodes]. unfold nodes', ids. destruct front; cbn [map n_id nd].
+      + constructor; [exact Hnfresh|exact (proj1 (ws_nodes _ Hs i im Hi))].
+      + rewrite map_app. cbn [map n_id]. apply NoDup_app_swap. cbn [app].
+        constructor; [exact Hnfresh|exact (proj1 (ws_nodes _ Hs i im Hi))].
+    - cbn [ids map n_id nd]. constructor; [|constructor]. unfold n, nid_ok, st2, st1.
+      destruct (sb_rep sb); cbn [next_nid with_next_nid with_next_rid]; lia. }
+  destruct (set_impl_nodes_reps st2 i im im' P [] [nd] Q Hi2 En En') as (L & R & Eb & Eb').
+  cbn [nodes_reps flat_map nd n_sb sb_reps sb_rep optl app] in Eb, Eb'.
+  exists r, (set_impl i im' st2). split; [reflexivity|]. split; [|split; [|split]].
+  - constructor.
+    + exact Hs3.
+    + rewrite Eb'. assert (Et : tracks (set_impl i im' st2) = tracks st).
+      { unfold st2, st1. destruct (sb_rep sb); reflexivity. }
+      eapply regs_tracks_eq; [exact Et|]. eapply regs_dem_eq; [|exact Hr]. intros t rid.
+      rewrite <- Ea2, Eb. change (L ++ r :: R) with (L ++ [r] ++ R). rewrite !dem_of_app, !dem_app.
+      set (dL := dem t rid (dem_of L)). set (dR := dem t rid (dem_of R)).
+      unfold r, sb_reps. destruct (sb_rep sb) as [r0|]; cbn [optl dem_of map dem]; unfold refs_of; cbn [r_fn r_id r_with_attached count_occ].
+      * lia.
+      * destruct (N.eqb (next_rid st1) rid); lia.
+    + apply sig_ok_set_impl. unfold st2, st1. destruct (sb_rep sb); exact Hg.
+    + intros w j m Hpn.
+      assert (Hpn0 : get_connptr w st = Some (Some (j, m))).
+      { rewrite <- Hpn. unfold st2, st1. destruct (sb_rep sb); destruct w; reflexivity. }
+      destruct (Hw w j m Hpn0) as [[]|(sb0 & r0 & G1 & G2 & G3)]. right. exists sb0, r0. split; [|auto].
+      rewrite get_sb_set_impl_node. destruct (N.eqb_spec j i) as [->|Hne].
+      * rewrite get_sb_node, Hi in G1. cbn [im' i_nodes with_nodes]. unfold nodes'.
+        destruct (find_node m (i_nodes im)) as [x|] eqn:Hfm; [|discriminate].
+        destruct front.
+        -- cbn [find_node nd n_id]. destruct (nid_eqb_spec n m) as [<-|]; [|rewrite Hfm; exact G1].
+           exfalso. apply Hnfresh. apply find_node_some_iff. eauto.
+        -- rewrite find_node_app, Hfm. exact G1.
+      * rewrite <- G1. unfold st2, st1. destruct (sb_rep sb); reflexivity.
+  - constructor.
+    + unfold st2, st1. destruct (sb_rep sb); reflexivity.
+    + apply tlive_tracks_eq. unfold st2, st1. destruct (sb_rep sb); reflexivity.
+    + intro j. rewrite aget_set_impl. destruct (N.eqb_spec j i) as [->|Hne].
+      * rewrite Hi. split; [reflexivity|]. split; [reflexivity|]. split; [reflexivity|]. split; [|split; [reflexivity|]].
+        -- intros _. cbn [im' i_nodes with_nodes]. unfold nodes', ids. destruct front.
+           ++ exists [n], []. rewrite app_nil_r. reflexivity.
+           ++ exists [], [n]. rewrite map_app. reflexivity.
+        -- cbn [im' i_nodes with_nodes]. unfold nodes', ids, phc. destruct front; cbn [map n_id nd filter n nid_is_ph].
+           ++ lia.
+           ++ rewrite map_app, filter_app, app_length. cbn [map n_id filter nid_is_ph length nd n]. lia.
+      * assert (X : aget j (impls st2) = aget j (impls st)) by (unfold st2, st1; destruct (sb_rep sb); reflexivity).
+        rewrite X. destruct (aget j (impls st)); [apply impl_same_refl|exact I].
+  - rewrite get_sb_set_impl_node, N.eqb_refl. cbn [im' i_nodes with_nodes]. unfold nodes'.
+    destruct front.
+    + cbn [find_node nd n_id]. rewrite nid_eqb_refl. reflexivity.
+    + rewrite find_node_app. destruct (find_node n (i_nodes im)) as [x|] eqn:Hfm.
+      * exfalso. apply Hnfresh. apply find_node_some_iff. eauto.
+      * cbn [find_node nd n_id]. rewrite nid_eqb_refl. reflexivity.
+  - unfold st2, st1. destruct (sb_rep sb); repeat split.
+Qed.
+
+(* ------------------------------------------------------------------ *)
+(* connections                                                          *)
+
+Definition WFx (ex : list wref) (st : state) : Prop :=
+  WFstruct st /\ regs (dem_of (all_reps st)) st /\ sig_ok st /\ watch_ok_ex ex st.
+
+Lemma WFx_nil st : WFx [] st <-> WFc st.
+Proof.
+  split; [intros (A & B & C & D); constructor; assumption|].
+  intros [A B C D]. split; [exact A|split; [exact B|split; [exact C|exact D]]].
+Qed.
+
+Lemma WFx_weaken ex ex' st : incl ex ex' -> WFx ex st -> WFx ex' st.
+Proof.
+  intros Hi (A & B & C & D). split; [exact A|split; [exact B|split; [exact C|]]].
+  eapply watch_ok_ex_weaken; eauto.
+Qed.
+
+Definition has_rep (i : N) (n : nid) (st : state) : Prop :=
+  exists sb r, get_sb (LNode i n) st = Some sb /\ sb_rep sb = Some r.
+
+Lemma has_rep_set_sb l sb r' b' st j m : get_sb l st = Some sb -> has_rep j m st ->
+  has_rep j m (set_sb l (mkSB (Some r') b') st).
+Proof.
+  intros Hget (sb0 & r0 & G1 & G2). destruct (loc_eqb_spec (LNode j m) l) as [<-|Hn].
+  - exists (mkSB (Some r') b'), r'. split; [eapply get_set_sb_same; eauto|reflexivity].
+  - exists sb0, r0. split; [rewrite get_set_sb_other by assumption; exact G1|exact G2].
+Qed.
+
+Lemma has_rep_impls st st' j m : impls st' = impls st -> has_rep j m st -> has_rep j m st'.
+Proof. intros E (sb & r & G1 & G2). exists sb, r. rewrite (get_sb_node_impls _ _ _ _ E). auto. Qed.
+
+Lemma target_has_rep w i n st : target_ok w i n st -> has_rep i n st.
+Proof. intros (sb & r & A & B & _). exists sb, r. auto. Qed.
+
+Lemma set_connptr_heavy w p st : same_heavy st (set_connptr w p st).
+Proof. destruct w; constructor; reflexivity. Qed.
+
+Lemma set_connptr_tracks w p st : tracks (set_connptr w p st) = tracks st.
+Proof. destruct w; reflexivity. Qed.
+
+Lemma set_connptr_x w p ex st : WFx ex st -> WFx (w :: ex) (set_connptr w p st).
+Proof.
+  intros (A & B & C & D). pose proof (set_connptr_heavy w p st) as Hh.
+  split; [eapply WFstruct_heavy; eauto|]. split; [|split].
+  - rewrite (all_reps_heavy _ _ Hh). eapply regs_tracks_eq; [apply set_connptr_tracks|exact B].
+  - eapply sig_ok_transfer; [| | |exact C]; [destruct Hh; assumption|apply tlive_tracks_eq; apply set_connptr_tracks|].
+    destruct Hh. rewrite sh_impls0. auto.
+  - intros w' i n Hp. rewrite get_set_connptr in Hp. destruct (wref_eqb_spec w' w) as [->|Hn].
+    + left. left. reflexivity.
+    + destruct (D w' i n Hp) as [X|X]; [left; right; exact X|right].
+      eapply target_ok_impls; [|exact X]. destruct Hh; assumption.
+Qed.
+
+Lemma WFx_close w st : WFx [w] st ->
+  (forall i n, get_connptr w st = Some (Some (i, n)) -> target_ok w i n st) -> WFc st.
+Proof.
+  intros (A & B & C & D) Hw. constructor; try assumption.
+  intros w' i n Hp. destruct (D w' i n Hp) as [[<-|[]]|X]; right; auto.
+Qed.
+
+Lemma watch_upd_ok ex st i n sb r ws :
+  WFx ex st -> get_sb (LNode i n) st = Some sb -> sb_rep sb = Some r ->
+  (forall x, In x (r_watch r) -> In x ex \/ In x ws) ->
+  WFx ex (set_sb (LNode i n) (mkSB (Some (r_with_watch ws r)) (sb_blocked sb)) st).
+Proof.
+  intros (Hs & Hr & Hg & Hw) Hget Hrep Hinc.
+  assert (Hv : r_valid (r_with_watch ws r) = true -> r_fn (r_with_watch ws r) <> None).
+  { cbn [r_valid r_fn r_with_watch]. exact (proj2 (in_all_reps_good _ _ Hs (get_sb_in_all_reps _ _ _ _ Hget Hrep))). }
+  destruct (set_sb_rep_ok_gen ex st (LNode i n) sb r (r_with_watch ws r) (sb_blocked sb) Hs Hg Hw Hget Hrep eq_refl Hv I Hinc)
+    as (S1 & S2 & S3 & A & B & Ea & Ea').
+  split; [exact S1|]. split; [|split; assumption].
+  rewrite Ea'. eapply regs_tracks_eq; [apply (set_sb_other_fields (LNode i n) _ st)|].
+  eapply regs_dem_eq; [|exact Hr]. intros t rid. rewrite Ea, !dem_of_app, !dem_app. reflexivity.
+Qed.
+
+Lemma in_remove_first_other w x l : In x l -> x = w \/ In x (remove_first (wref_eqb w) l).
+Proof.
+  induction l as [|y l IH]; cbn [In remove_first]; [tauto|].
+  intros [<-|Hi].
+  - destruct (wref_eqb_spec w y) as [->|Hn]; [left; reflexivity|right; left; reflexivity].
+  - destruct (wref_eqb w y); [right; exact Hi|]. destruct (IH Hi) as [X|X]; [left; exact X|right; right; exact X].
+Qed.
+
+Lemma watch_add_ok w p st : WFx [w] st -> get_connptr w st = Some p ->
+  (forall i n, p = Some (i, n) -> has_rep i n st) ->
+  exists st', watch_add p w st = Ok st' /\ WFc st' /\ Casc st st' /\
+     (forall j m, has_rep j m st -> has_rep j m st') /\
+     (forall w', get_connptr w' st' = get_connptr w' st).
+Proof.
+  intros Hx Hp Hhas. unfold watch_add. destruct p as [[i n]|].
+  - destruct (Hhas i n eq_refl) as (sb & r & G1 & G2). rewrite G1, G2.
+    eexists. split; [reflexivity|]. split; [|split; [apply Casc_set_sb|split]].
+    + eapply (WFx_close w).
+      * eapply watch_upd_ok; eauto. intros x Hxi. right. apply in_or_app. left; exact Hxi.
+      * intros i' n' Hp'. rewrite get_connptr_set_sb, Hp in Hp'. inversion Hp'; subst i' n'.
+        eexists _, _. split; [eapply get_set_sb_same; eauto|]. split; [reflexivity|].
+        cbn [r_watch r_with_watch]. apply in_or_app. right; left; reflexivity.
+    + intros j m. eapply has_rep_set_sb. exact G1.
+    + intro w'. apply get_connptr_set_sb.
+  - exists st. split; [reflexivity|]. split; [|split; [apply Casc_refl|split; auto]].
+    eapply WFx_close; eauto. intros i n Hp'. rewrite Hp in Hp'. discriminate.
+Qed.
+
+Lemma watch_remove_ok w p st : WFc st -> get_connptr w st = Some p ->
+  exists st', watch_remove p w st = Ok st' /\ WFx [w] st' /\ Casc st st' /\
+     (forall j m, has_rep j m st -> has_rep j m st') /\
+     (forall w', get_connptr w' st' = get_connptr w' st).
+Proof.
+  intros Hc Hp. unfold watch_remove. destruct p as [[i n]|].
+  - destruct (wc_watch _ Hc w i n Hp) as [[]|(sb & r & G1 & G2 & G3)]. rewrite G1, G2.
+    eexists. split; [reflexivity|]. split; [|split; [apply Casc_set_sb|split]].
+    + eapply watch_upd_ok; eauto.
+      * eapply WFx_weaken; [|apply WFx_nil; exact Hc]. intros x [].
+      * intros x Hxi. destruct (in_remove_first_other w x _ Hxi) as [->|X]; [left; left; reflexivity|right; exact X].
+    + intros j m. eapply has_rep_set_sb. exact G1.
+    + intro w'. apply get_connptr_set_sb.
+  - exists st. split; [reflexivity|]. split; [|split; [apply Casc_refl|split; auto]].
+    eapply WFx_weaken; [|apply WFx_nil; exact Hc]. intros x [].
+Qed.
+
+Lemma Casc_set_connptr w p st : Casc st (set_connptr w p st).
+Proof. apply Casc_heavy; [apply set_connptr_heavy|apply tlive_tracks_eq; apply set_connptr_tracks]. Qed.
+
+Lemma conn_set_ok w p old st : WFc st -> get_connptr w st = Some old ->
+  (forall i n, p = Some (i, n) -> has_rep i n st) ->
+  exists st', conn_set w p st = Ok st' /\ WFc st' /\ Casc st st' /\
+    (forall j m, has_rep j m st -> has_rep j m st') /\
+    get_connptr w st' = Some p /\ (forall w', w' <> w -> get_connptr w' st' = get_connptr w' st).
+Proof.
+  intros Hc Hold Hhas. unfold conn_set. rewrite Hold.
+  destruct (watch_remove_ok w old st Hc Hold) as (st1 & E1 & X1 & C1 & R1 & P1). rewrite E1. cbn [rbind].
+  set (st1' := set_connptr w p st1).
+  assert (X1' : WFx [w] st1').
+  { apply (WFx_weaken [w; w]); [intros x [<-|[<-|[]]]; left; reflexivity|]. apply set_connptr_x. exact X1. }
+  assert (Hp1 : get_connptr w st1' = Some p).
+  { unfold st1'. rewrite get_set_connptr. destruct (wref_eqb_spec w w); [reflexivity|congruence]. }
+  assert (Hhas1 : forall i n, p = Some (i, n) -> has_rep i n st1').
+  { intros i n E. eapply has_rep_impls; [|apply R1; apply Hhas; exact E].
+    destruct (set_connptr_heavy w p st1); assumption. }
+  destruct (watch_add_ok w p st1' X1' Hp1 Hhas1) as (st2 & E2 & W2 & C2 & R2 & P2).
+  rewrite E2. cbn [rbind]. exists st2. split; [reflexivity|]. split; [exact W2|]. split; [|split; [|split]].
+  - eapply Casc_trans; [exact C1|]. eapply Casc_trans; [apply Casc_set_connptr|exact C2].
+  - intros j m H. apply R2. eapply has_rep_impls; [|apply R1; exact H].
+    destruct (set_connptr_heavy w p st1); assumption.
+  - rewrite P2. exact Hp1.
+  - intros w' Hn. rewrite P2. unfold st1'. rewrite get_set_connptr.
+    destruct (wref_eqb_spec w' w); [contradiction|]. apply P1.
+Qed.
+
+Lemma conn_disconnect_ok p st : WFc st ->
+  (forall i n, p = Some (i, n) -> exists sb, get_sb (LNode i n) st = Some sb) ->
+  exists st', conn_disconnect p st = Ok st' /\ WFc st' /\ Casc st st'.
+Proof.
+  intros Hc Hex. unfold conn_disconnect, conn_target. destruct p as [[i n]|].
+  - destruct (Hex i n eq_refl) as (sb & G). rewrite G. cbn [rbind].
+    destruct (rep_disconnect_ok (LNode i n) st Hc) as (st' & E & W & C & _). exists st'. auto.
+  - cbn [rbind]. exists st. split; [reflexivity|]. split; [exact Hc|apply Casc_refl].
+Qed.
+
+Lemma live_conn_target w p st : WFc st -> get_connptr w st = Some p ->
+  forall i n, p = Some (i, n) -> has_rep i n st.
+Proof.
+  intros Hc Hp i n ->. destruct (wc_watch _ Hc w i n Hp) as [[]|X]. eapply target_has_rep; eauto.
+Qed.
+
+(* ------------------------------------------------------------------ *)
+(* operations on one signal_impl                                        *)
+
+Record FrameI (i : N) (st st' : state) : Prop := mkFrameI
+  { fi_sigs : sigs st' = sigs st
+  ; fi_tracks : tlive_same st st'
+  ; fi_others : forall j, j <> i -> aget j (impls st') = aget j (impls st) }.
+
+Lemma FrameI_refl i st : FrameI i st st.
+Proof. constructor; [reflexivity|apply tlive_same_refl|reflexivity]. Qed.
+
+Lemma FrameI_trans i a b c : FrameI i a b -> FrameI i b c -> FrameI i a c.
+Proof.
+  intros [S1 T1 O1] [S2 T2 O2]. constructor; [congruence|eapply tlive_same_trans; eauto|].
+  intros j Hj. rewrite (O2 j Hj). apply O1. exact Hj.
+Qed.
+
+Lemma FrameI_heavy i st st' : same_heavy st st' -> tlive_same st st' -> FrameI i st st'.
+Proof. intros [] T. constructor; [assumption|exact T|]. intros j _. rewrite sh_impls0. reflexivity. Qed.
+
+Lemma FrameI_set_impl i im' st : FrameI i st (set_impl i im' st).
+Proof.
+  constructor; [reflexivity|apply tlive_tracks_eq; reflexivity|]. intros j Hj. rewrite aget_set_impl.
+  destruct (N.eqb_spec j i); [contradiction|reflexivity].
+Qed.
+
+Lemma FrameI_Casc i st st' : FrameI i st st' ->
+  match aget i (impls st), aget i (impls st') with
+  | Some im, Some im' => impl_same im im'
+  | None, None => True
+  | _, _ => False
+  end -> Casc st st'.
+Proof.
+  intros [S T O] Hi. constructor; [exact S|exact T|]. intro j. destruct (N.eq_dec j i) as [->|Hn]; [exact Hi|].
+  rewrite (O j Hn). destruct (aget j (impls st)); [apply impl_same_refl|exact I].
+Qed.
+
+Lemma disconnect_nodes_ok i ids : forall st, WFc st ->
+  exists st', disconnect_nodes i ids st = Ok st' /\ WFc st' /\ Casc st st' /\ FrameI i st st'.
+Proof.
+  induction ids as [|n ids IH]; intros st Hc; cbn [disconnect_nodes].
+  - exists st. split; [reflexivity|]. split; [exact Hc|]. split; [apply Casc_refl|apply FrameI_refl].
+  - destruct (rep_disconnect_ok (LNode i n) st Hc) as (st1 & E1 & W1 & C1 & (_ & O1)).
+    rewrite E1. cbn [rbind]. destruct (IH st1 W1) as (st2 & E2 & W2 & C2 & F2).
+    exists st2. split; [exact E2|]. split; [exact W2|]. split; [eapply Casc_trans; eauto|].
+    eapply FrameI_trans; [|exact F2]. constructor; [exact (ca_sigs _ _ C1)|exact (ca_tracks _ _ C1)|].
+    intros j Hj. apply O1. intros n' X. inversion X. congruence.
+Qed.
+
+Lemma nodes_reps_cons x l : nodes_reps (x :: l) = sb_reps (n_sb x) ++ nodes_reps l.
+Proof. reflexivity. Qed.
+
+Lemma delete_sbs_ok l : forall D ex st,
+  regs (dem_of (nodes_reps l) ++ D) st -> watch_ok_ex (flat_map r_watch (nodes_reps l) ++ ex) st ->
+  exists st', delete_sbs l st = Ok st' /\ regs D st' /\ watch_ok_ex ex st' /\
+              same_heavy st st' /\ tlive_same st st'.
+Proof.
+  induction l as [|x l IH]; intros D ex st HR HW; cbn [delete_sbs].
+  - exists st. split; [reflexivity|]. split; [exact HR|]. split; [exact HW|].
+    split; [apply same_heavy_refl|apply tlive_same_refl].
+  - rewrite nodes_reps_cons in HR, HW. rewrite dem_of_app, <- app_assoc in HR.
+    rewrite flat_map_app, <- app_assoc in HW. unfold sb_delete.
+    rewrite sb_reps_dem in HR. unfold sb_reps in HW. destruct (sb_rep (n_sb x)) as [r|].
+    + cbn [optl flat_map app] in HW, HR. rewrite app_nil_r in HW.
+      destruct (rep_delete_ok r _ _ st HR HW) as (st1 & E1 & R1 & W1 & H1 & T1).
+      rewrite E1. cbn [rbind]. destruct (IH D ex st1 R1 W1) as (st2 & E2 & R2 & W2 & H2 & T2).
+      exists st2. split; [exact E2|]. split; [exact R2|]. split; [exact W2|].
+      split; [eapply same_heavy_trans; eauto|eapply tlive_same_trans; eauto].
+    + cbn [optl flat_map app rbind] in *. apply IH; assumption.
+Qed.
+
+Lemma in_flat_map_watch w r l : In r l -> In w (r_watch r) -> In w (flat_map r_watch l).
+Proof. intros H1 H2. apply in_flat_map. exists r. auto. Qed.
+
+(* empty the node list of impl i and delete all its slot bases *)
+Lemma clear_nodes_ok i im im' st :
+  WFc st -> aget i (impls st) = Some im -> i_nodes im' = [] ->
+  exists st', delete_sbs (i_nodes im) (set_impl i im' st) = Ok st' /\ WFc st' /\
+     same_heavy (set_impl i im' st) st' /\ tlive_same st st'.
+Proof.
+  intros [Hs Hr Hg Hw] Hi Hn'. set (st1 := set_impl i im' st).
+  assert (E1 : i_nodes im = [] ++ i_nodes im ++ []) by (rewrite app_nil_r; reflexivity).
+  assert (E2 : i_nodes im' = [] ++ [] ++ []) by (rewrite Hn'; reflexivity).
+  destruct (set_impl_nodes_reps st i im im' _ _ _ _ Hi E1 E2) as (L & R & Ea & Ea'). fold st1 in Ea'.
+  cbn [nodes_reps flat_map app] in Ea'.
+  assert (Hs1 : WFstruct st1).
+  { eapply (WFstruct_set_impl st i im im' [] (i_nodes im) [] []); eauto.
+    - rewrite Hn'. constructor.
+    - constructor.
+    - apply reps_upd_nil. }
+  assert (Hr1 : regs (dem_of (nodes_reps (i_nodes im)) ++ dem_of (all_reps st1)) st1).
+  { rewrite Ea'. apply regs_mid_out. rewrite <- Ea. eapply regs_tracks_eq; [|exact Hr]. reflexivity. }
+  assert (Hw1 : watch_ok_ex (flat_map r_watch (nodes_reps (i_nodes im)) ++ []) st1).
+  { intros w j m Hp. destruct (Hw w j m Hp) as [[]|(sb & r & G1 & G2 & G3)].
+    destruct (N.eqb_spec j i) as [->|Hne].
+    - left. rewrite app_nil_r. rewrite get_sb_node, Hi in G1.
+      destruct (find_node m (i_nodes im)) as [nd|] eqn:Hf; [|discriminate]. cbn [option_map] in G1. inversion G1; subst sb.
+      eapply in_flat_map_watch; [|exact G3]. apply in_nodes_reps. exists nd. split; [|exact G2].
+      apply (find_node_in _ _ _ Hf).
+    - right. exists sb, r. split; [|auto]. unfold st1. rewrite get_sb_set_impl_node.
+      destruct (N.eqb_spec j i); [contradiction|exact G1]. }
+  destruct (delete_sbs_ok (i_nodes im) _ [] st1 Hr1 Hw1) as (st' & E' & R' & W' & H' & T').
+  exists st'. split; [exact E'|]. split; [|split; [exact H'|]].
+  - eapply WFc_build; eauto. apply sig_ok_set_impl. exact Hg.
+  - eapply tlive_same_trans; [apply tlive_tracks_eq|exact T']. reflexivity.
+Qed.
+
+Lemma all_reps_del_impl st i im : aget i (impls st) = Some im -> i_nodes im = [] ->
+  all_reps (with_impls (adel i (impls st)) st) = all_reps st.
+Proof.
+  intros Hi Hn. unfold all_reps, var_reps, node_reps. cbn [slots impls with_impls].
+  destruct (node_reps_present _ _ _ Hi) as (A & B & H1 & _ & H3). rewrite H1, H3, Hn. reflexivity.
+Qed.
+
+Lemma Casc_impl_some st st' i im : Casc st st' -> aget i (impls st) = Some im ->
+  exists im', aget i (impls st') = Some im' /\ impl_same im im'.
+Proof.
+  intros C Hi. pose proof (ca_impls _ _ C i) as X. rewrite Hi in X.
+  destruct (aget i (impls st')) as [im'|]; [eauto|contradiction].
+Qed.
+
+Lemma destroy_impl_ok i im st : WFc st -> aget i (impls st) = Some im ->
+  (forall g go, live_sig g st = Some go -> g_impl go <> Some i) ->
+  exists st', destroy_impl i st = Ok st' /\ WFc st' /\ FrameI i st st' /\ aget i (impls st') = None.
+Proof.
+  intros Hc Hi Hnosig. unfold destroy_impl, upd_impl. rewrite Hi. cbn [rbind].
+  set (im1 := with_exec (i_exec im + 1) (with_dying true im)). set (st1 := set_impl i im1 st).
+  assert (Hi1 : aget i (impls st1) = Some im1) by (unfold st1; rewrite aget_set_impl, N.eqb_refl; reflexivity).
+  rewrite Hi1.
+  assert (Hc1 : WFc st1) by (eapply WFc_set_impl_flags; eauto).
+  destruct (disconnect_nodes_ok i (map n_id (i_nodes im1)) st1 Hc1) as (st2 & E2 & W2 & C2 & F2).
+  rewrite E2. cbn [rbind].
+  destruct (Casc_impl_some _ _ _ _ C2 Hi1) as (im2 & Hi2 & _). rewrite Hi2.
+  destruct (clear_nodes_ok i im2 (with_nodes [] im2) st2 W2 Hi2 eq_refl) as (st4 & E4 & W4 & H4 & T4).
+  rewrite E4. cbn [rbind]. eexists. split; [reflexivity|].
+  assert (Hi4 : aget i (impls st4) = Some (with_nodes [] im2)).
+  { destruct H4. rewrite sh_impls0, aget_set_impl, N.eqb_refl. reflexivity. }
+  assert (Hsig4 : sigs st4 = sigs st).
+  { destruct H4. rewrite sh_sigs0. cbn [sigs set_impl with_impls]. rewrite (fi_sigs _ _ _ F2). reflexivity. }
+  split; [|split].
+  - destruct W4 as [Hs Hr Hg Hw]. constructor.
+    + eapply WFstruct_del_impl; eauto.
+    + rewrite (all_reps_del_impl _ _ _ Hi4 eq_refl). eapply regs_tracks_eq; [|exact Hr]. reflexivity.
+    + destruct Hg as [G1 G2]. split; [exact G1|]. intros g go j Hl Hj. cbn [impls with_impls].
+      assert (Hne : j <> i).
+      { intro X. subst j. apply (Hnosig g go); [|exact Hj]. unfold live_sig in *. rewrite <- Hsig4. exact Hl. }
+      rewrite aget_adel_other by exact Hne. eapply G2; eauto.
+    + intros w j m Hp. destruct (Hw w j m Hp) as [[]|(sb & r & A1 & A2 & A3)]. right.
+      exists sb, r. split; [|auto]. rewrite get_sb_node in *. cbn [impls with_impls].
+      destruct (N.eq_dec j i) as [->|Hne].
+      * rewrite Hi4 in A1. cbn [i_nodes with_nodes find_node option_map] in A1. discriminate.
+      * rewrite aget_adel_other by exact Hne. exact A1.
+  - constructor.
+    + cbn [sigs with_impls]. exact Hsig4.
+    + eapply tlive_same_trans; [apply (fi_tracks _ _ _ (FrameI_set_impl i im1 st))|].
+      eapply tlive_same_trans; [exact (fi_tracks _ _ _ F2)|]. exact T4.
+    + intros j Hj. cbn [impls with_impls]. rewrite aget_adel_other by exact Hj.
+      destruct H4. rewrite sh_impls0, aget_set_impl. destruct (N.eqb_spec j i); [contradiction|].
+      rewrite (fi_others _ _ _ F2 j Hj). unfold st1. rewrite aget_set_impl.
+      destruct (N.eqb_spec j i); [contradiction|reflexivity].
+  - cbn [impls with_impls]. apply aget_adel_same. exact (ws_keys_impls _ (wc_struct _ W4)).
+Qed.
+
+Lemma refcount_zero i st : refcount i st = 0 ->
+  (forall g go, live_sig g st = Some go -> g_impl go <> Some i) /\
+  (forall im, aget i (impls st) = Some im -> i_holders im = 0).
+Proof.
+  unfold refcount, count_if. intro H. split.
+  - intros g go Hl Hg.
+    set (p := fun x : N * option sigobj => let '(_, o) := x in
+                match o with
+                | Some g0 => match g_impl g0 with Some j => N.eqb i j | None => false end
+                | None => false
+                end) in *.
+    assert (Hin : In (g, Some go) (filter p (sigs st))).
+    { apply filter_In. split.
+      - unfold live_sig in Hl. destruct (aget g (sigs st)) as [[x|]|] eqn:E; try discriminate.
+        inversion Hl; subst x. apply aget_in. exact E.
+      - cbn [p]. rewrite Hg. apply N.eqb_refl. }
+    destruct (filter p (sigs st)); [destruct Hin|]. cbn [length] in H. lia.
+  - intros im Hi. rewrite Hi in H. lia.
+Qed.
+
+Lemma release_check_ok i st : WFc st ->
+  exists st', release_check i st = Ok st' /\ WFc st' /\ FrameI i st st' /\
+     (st' = st \/ (aget i (impls st') = None /\ refcount i st = 0)).
+Proof.
+  intro Hc. unfold release_check. destruct (aget i (impls st)) as [im|] eqn:Hi.
+  2:{ exists st. split; [reflexivity|]. split; [exact Hc|]. split; [apply FrameI_refl|left; reflexivity]. }
+  destruct (N.eqb_spec (refcount i st) 0) as [Hz|Hnz]; cbn [andb].
+  2:{ exists st. split; [reflexivity|]. split; [exact Hc|]. split; [apply FrameI_refl|left; reflexivity]. }
+  destruct (i_dying im); cbn [negb].
+  { exists st. split; [reflexivity|]. split; [exact Hc|]. split; [apply FrameI_refl|left; reflexivity]. }
+  destruct (destroy_impl_ok i im st Hc Hi (proj1 (refcount_zero i st Hz))) as (st' & E & W & F & N0).
+  exists st'. split; [exact E|]. split; [exact W|]. split; [exact F|]. right. auto.
+Qed.
+
+(* ------------------------------------------------------------------ *)
+(* sweep                                                                *)
+
+Lemma in_ids_find n l : In n (ids l) -> find_node n l <> None.
+Proof. intros H E. apply find_node_none_iff in E. contradiction. Qed.
+
+Lemma get_sb_node_some_in i n st im : aget i (impls st) = Some im ->
+  get_sb (LNode i n) st <> None -> In n (ids (i_nodes im)).
+Proof.
+  intros Hi H. rewrite get_sb_node, Hi in H. destruct (find_node n (i_nodes im)) eqn:E; [|exfalso; apply H; reflexivity].
+  apply find_node_some_iff. eauto.
+Qed.
+
+Lemma sweep_step_ok i n st im : WFc st -> aget i (impls st) = Some im -> 0 < i_exec im ->
+  get_sb (LNode i n) st <> None ->
+  exists st0 st1 im1, rep_disconnect (LNode i n) st = Ok st0 /\ erase_node i n st0 = Ok st1 /\
+    WFc st1 /\ FrameI i st st1 /\ aget i (impls st1) = Some im1 /\
+    i_exec im1 = i_exec im /\ i_holders im1 = i_holders im /\ i_dying im1 = i_dying im /\
+    (phc (ids (i_nodes im1)) <= phc (ids (i_nodes im)))%nat /\
+    get_sb (LNode i n) st1 = None /\
+    (forall m, m <> n -> get_sb (LNode i m) st1 = get_sb (LNode i m) st).
+Proof.
+  intros Hc Hi Hex Hn.
+  destruct (rep_disconnect_ok (LNode i n) st Hc) as (st0 & E0 & W0 & C0 & (O0 & I0)).
+  destruct (Casc_impl_some _ _ _ _ C0 Hi) as (im0 & Hi0 & (S1 & S2 & S3 & S4 & S5 & S6)).
+  destruct (S4 Hex) as (pre & post & Eids).
+  assert (Hin0 : In n (ids (i_nodes im0))).
+  { rewrite Eids. apply in_or_app. right. apply in_or_app. left. eapply get_sb_node_some_in; eauto. }
+  destruct (find_node n (i_nodes im0)) as [nd|] eqn:Hf; [|exfalso; exact (in_ids_find _ _ Hin0 Hf)].
+  destruct (erase_node_ok i n st0 im0 nd W0 Hi0 Hf) as (st1 & E1 & W1 & H1 & T1).
+  exists st0, st1, (with_nodes (del_node n (i_nodes im0)) im0).
+  split; [exact E0|]. split; [exact E1|]. split; [exact W1|].
+  assert (Himpls : impls st1 = impls (set_impl i (with_nodes (del_node n (i_nodes im0)) im0) st0)) by (destruct H1; assumption).
+  split; [|split; [|split; [|split; [|split; [|split; [|split]]]]]].
+  - constructor.
+    + destruct H1. rewrite sh_sigs0. cbn [sigs set_impl with_impls]. exact (ca_sigs _ _ C0).
+    + eapply tlive_same_trans; [exact (ca_tracks _ _ C0)|exact T1].
+    + intros j Hj. rewrite Himpls, aget_set_impl. destruct (N.eqb_spec j i); [contradiction|].
+      apply I0. intros n' X. inversion X. congruence.
+  - rewrite Himpls, aget_set_impl, N.eqb_refl. reflexivity.
+  - exact S1.
+  - exact S2.
+  - exact S3.
+  - cbn [i_nodes with_nodes]. pose proof (phc_del_node n (i_nodes im0)). lia.
+  - rewrite (get_sb_node_impls _ _ _ _ Himpls), get_sb_set_impl_node, N.eqb_refl. cbn [i_nodes with_nodes].
+    rewrite find_node_del_same; [reflexivity|]. exact (proj1 (ws_nodes _ (wc_struct _ W0) i im0 Hi0)).
+  - intros m Hm. rewrite (get_sb_node_impls _ _ _ _ Himpls), get_sb_set_impl_node, N.eqb_refl. cbn [i_nodes with_nodes].
+    rewrite find_node_del_other by exact Hm. rewrite <- (O0 (LNode i m)) by congruence.
+    rewrite get_sb_node, Hi0. reflexivity.
+Qed.
+
+Lemma sweep_nodes_ok i ns : forall st im, WFc st -> aget i (impls st) = Some im -> 0 < i_exec im ->
+  NoDup ns -> (forall n, In n ns -> get_sb (LNode i n) st <> None) ->
+  exists st' im', sweep_nodes i ns st = Ok st' /\ WFc st' /\ FrameI i st st' /\
+     aget i (impls st') = Some im' /\ i_exec im' = i_exec im /\ i_holders im' = i_holders im /\
+     i_dying im' = i_dying im /\ (phc (ids (i_nodes im')) <= phc (ids (i_nodes im)))%nat /\
+     (forall n sb, get_sb (LNode i n) st' = Some sb ->
+        (In n ns /\ sb_empty sb = false) \/ (~ In n ns /\ get_sb (LNode i n) st = Some sb)).
+Proof.
+  induction ns as [|n ns IH]; intros st im Hc Hi Hex Hnd Hall; cbn [sweep_nodes].
+  - exists st, im. split; [reflexivity|]. split; [exact Hc|]. split; [apply FrameI_refl|]. split; [exact Hi|].
+    split; [reflexivity|]. split; [reflexivity|]. split; [reflexivity|]. split; [lia|].
+    intros n sb H. right. split; [intros []|exact H].
+  - inversion Hnd as [|? ? Hnin Hnd']; subst.
+    destruct (get_sb (LNode i n) st) as [sb|] eqn:Hg; [|exfalso; apply (Hall n); [left; reflexivity|exact Hg]].
+    destruct (sb_empty sb) eqn:Hemp.
+    + destruct (sweep_step_ok i n st im Hc Hi Hex) as (st0 & st1 & im1 & E0 & E1 & W1 & F1 & Hi1 & X1 & X2 & X3 & X4 & X5 & X6).
+      { rewrite Hg. discriminate. }
+      rewrite E0. cbn [rbind]. rewrite E1. cbn [rbind].
+      destruct (IH st1 im1 W1 Hi1) as (st' & im' & E' & W' & F' & Hi' & Y1 & Y2 & Y3 & Y4 & Y5); [lia|exact Hnd'| |].
+      { intros m Hm. rewrite X6; [apply Hall; right; exact Hm|]. intro X. subst m. contradiction. }
+      exists st', im'. split; [exact E'|]. split; [exact W'|]. split; [eapply FrameI_trans; eauto|].
+      split; [exact Hi'|]. split; [congruence|]. split; [congruence|]. split; [congruence|]. split; [lia|].
+      intros m sbm Hm. destruct (Y5 m sbm Hm) as [(A & B)|(A & B)].
+      * left. split; [right; exact A|exact B].
+      * right. destruct (nid_eq_dec m n) as [->|Hne]; [rewrite X5 in B; discriminate|].
+        split; [intros [X|X]; [congruence|contradiction]|]. rewrite <- X6 by exact Hne. exact B.
+    + destruct (IH st im Hc Hi Hex Hnd') as (st' & im' & E' & W' & F' & Hi' & Y1 & Y2 & Y3 & Y4 & Y5).
+      { intros m Hm. apply Hall. right; exact Hm. }
+      exists st', im'. split; [exact E'|]. split; [exact W'|]. split; [exact F'|].
+      split; [exact Hi'|]. split; [exact Y1|]. split; [exact Y2|]. split; [exact Y3|]. split; [exact Y4|].
+      intros m sbm Hm. destruct (Y5 m sbm Hm) as [(A & B)|(A & B)].
+      * left. split; [right; exact A|exact B].
+      * destruct (nid_eq_dec m n) as [->|Hne].
+        -- left. split; [left; reflexivity|]. rewrite Hg in B. inversion B; subst sbm. exact Hemp.
+        -- right. split; [intros [X|X]; [congruence|contradiction]|exact B].
+Qed.
+
+Lemma sweep_nodes_noop i ns : forall st,
+  (forall n, In n ns -> exists sb, get_sb (LNode i n) st = Some sb /\ sb_empty sb = false) ->
+  sweep_nodes i ns st = Ok st.
+Proof.
+  induction ns as [|n ns IH]; intros st H; cbn [sweep_nodes]; [reflexivity|].
+  destruct (H n (or_introl eq_refl)) as (sb & G & E). rewrite G, E. apply IH.
+  intros m Hm. apply H. right; exact Hm.
+Qed.
+
+Lemma sweep_pass_ok i im st : WFc st -> aget i (impls st) = Some im ->
+  exists st' im', sweep_pass i st = Ok st' /\ WFc st' /\ FrameI i st st' /\ aget i (impls st') = Some im' /\
+    i_exec im' = i_exec im /\ i_holders im' = i_holders im + 1 /\ i_dying im' = i_dying im /\
+    (phc (ids (i_nodes im')) <= phc (ids (i_nodes im)))%nat /\
+    (forall n sb, get_sb (LNode i n) st' = Some sb -> sb_empty sb = false) /\
+    ((forall n sb, get_sb (LNode i n) st = Some sb -> sb_empty sb = false) -> i_deferred im' = false).
+Proof.
+  intros Hc Hi. unfold sweep_pass, upd_impl. rewrite Hi. cbn [rbind].
+  set (im1 := with_deferred false (with_exec (i_exec im + 1) (with_holders (i_holders im + 1) im))).
+  set (st1 := set_impl i im1 st).
+  assert (Hi1 : aget i (impls st1) = Some im1) by (unfold st1; rewrite aget_set_impl, N.eqb_refl; reflexivity).
+  rewrite Hi1.
+  assert (Hc1 : WFc st1) by (eapply WFc_set_impl_flags; eauto).
+  assert (Hsame1 : forall n, get_sb (LNode i n) st1 = get_sb (LNode i n) st).
+  { intro n. unfold st1. rewrite get_sb_set_impl_node, N.eqb_refl, get_sb_node, Hi. reflexivity. }
+  destruct (sweep_nodes_ok i (map n_id (i_nodes im1)) st1 im1 Hc1 Hi1) as (st2 & im2 & E2 & W2 & F2 & Hi2 & Y1 & Y2 & Y3 & Y4 & Y5).
+  { cbn [im1 i_exec with_deferred with_exec]. lia. }
+  { exact (proj1 (ws_nodes _ (wc_struct _ Hc1) i im1 Hi1)). }
+  { intros n Hn. rewrite get_sb_node, Hi1. pose proof (in_ids_find _ _ Hn) as X.
+    destruct (find_node n (i_nodes im1)); [discriminate|contradiction]. }
+  rewrite E2. cbn [rbind]. rewrite Hi2.
+  eexists _, _. split; [reflexivity|]. split; [eapply WFc_set_impl_flags; eauto|].
+  split; [|split; [rewrite aget_set_impl, N.eqb_refl; reflexivity|]].
+  { eapply FrameI_trans; [apply FrameI_set_impl|]. eapply FrameI_trans; [exact F2|apply FrameI_set_impl]. }
+  cbn [i_exec i_holders i_dying i_deferred i_nodes with_exec]. rewrite Y1, Y2, Y3.
+  cbn [im1 i_exec i_holders i_dying with_deferred with_exec with_holders].
+  split; [lia|]. split; [reflexivity|]. split; [reflexivity|]. split; [exact Y4|]. split.
+  - intros n sb G. rewrite get_sb_set_impl_node, N.eqb_refl in G. cbn [i_nodes with_exec] in G.
+    assert (G2 : get_sb (LNode i n) st2 = Some sb) by (rewrite get_sb_node, Hi2; exact G).
+    destruct (Y5 n sb G2) as [(_ & B)|(A & B)]; [exact B|]. exfalso. apply A.
+    eapply get_sb_node_some_in; [exact Hi1|]. rewrite B. discriminate.
+  - intro Hne. assert (X : sweep_nodes i (map n_id (i_nodes im1)) st1 = Ok st1).
+    { apply sweep_nodes_noop. intros n Hn. pose proof (in_ids_find _ _ Hn) as X.
+      destruct (find_node n (i_nodes im1)) as [nd|] eqn:Hf; [|contradiction].
+      exists (n_sb nd). assert (G : get_sb (LNode i n) st1 = Some (n_sb nd)) by (rewrite get_sb_node, Hi1, Hf; reflexivity).
+      split; [exact G|]. apply (Hne n). rewrite <- Hsame1. exact G. }
+    rewrite X in E2. inversion E2; subst st2. rewrite Hi1 in Hi2. inversion Hi2; subst im2. reflexivity.
+Qed.
+
+Lemma refcount_holders_pos i st im : aget i (impls st) = Some im -> 0 < i_holders im -> refcount i st <> 0.
+Proof. intros Hi Hh E. pose proof (proj2 (refcount_zero i st E) im Hi). lia. Qed.
+
+(* the end of sweep: drop the holder's shared_ptr copy, then check the refcount *)
+Lemma sweep_tail_ok i im st : WFc st -> aget i (impls st) = Some im ->
+  exists st', (st3 <- upd_impl_opt i (fun im => with_holders (i_holders im - 1) im) st ;; release_check i st3) = Ok st' /\
+    WFc st' /\ FrameI i st st' /\
+    (aget i (impls st') = Some (with_holders (i_holders im - 1) im) \/
+     (aget i (impls st') = None /\ i_holders im - 1 = 0)).
+Proof.
+  intros Hc Hi. unfold upd_impl_opt. rewrite Hi. cbn [rbind].
+  set (st3 := set_impl i (with_holders (i_holders im - 1) im) st).
+  assert (Hc3 : WFc st3) by (eapply WFc_set_impl_flags; eauto).
+  assert (Hi3 : aget i (impls st3) = Some (with_holders (i_holders im - 1) im)) by (unfold st3; rewrite aget_set_impl, N.eqb_refl; reflexivity).
+  destruct (release_check_ok i st3 Hc3) as (st' & E & W & F & D).
+  exists st'. split; [exact E|]. split; [exact W|]. split; [eapply FrameI_trans; [apply FrameI_set_impl|exact F]|].
+  destruct D as [->|(A & B)]; [left; exact Hi3|right]. split; [exact A|].
+  pose proof (proj2 (refcount_zero i st3 B) _ Hi3) as X. exact X.
+Qed.
+
+Lemma sweep_ok i im st : WFc st -> aget i (impls st) = Some im -> i_exec im = 0 ->
+  exists st', sweep i st = Ok st' /\ WFc st' /\ FrameI i st st' /\
+    ((aget i (impls st') = None /\ i_holders im = 0) \/
+     exists im', aget i (impls st') = Some im' /\ i_exec im' = 0 /\ i_holders im' = i_holders im /\
+       i_dying im' = i_dying im /\ i_deferred im' = false /\
+       (phc (ids (i_nodes im')) <= phc (ids (i_nodes im)))%nat).
+Proof.
+  intros Hc Hi He. unfold sweep.
+  destruct (sweep_pass_ok i im st Hc Hi) as (st1 & im1 & E1 & W1 & F1 & Hi1 & A1 & A2 & A3 & A4 & A5 & _).
+  rewrite E1. cbn [rbind]. rewrite Hi1. rewrite A1, He. cbn [N.eqb andb].
+  assert (Hmid : exists st2 im2, (if i_deferred im1
+                  then st2 <- sweep_pass i st1 ;;
+                       st3 <- upd_impl i (fun im => with_holders (i_holders im - 1) im) st2 ;;
+                       release_check i st3
+                  else Ok st1) = Ok st2 /\ WFc st2 /\ FrameI i st1 st2 /\ aget i (impls st2) = Some im2 /\
+                 i_exec im2 = 0 /\ i_holders im2 = i_holders im + 1 /\ i_dying im2 = i_dying im /\
+                 i_deferred im2 = false /\ (phc (ids (i_nodes im2)) <= phc (ids (i_nodes im)))%nat).
+  { destruct (i_deferred im1) eqn:Hd.
+    - destruct (sweep_pass_ok i im1 st1 W1 Hi1) as (st2 & im2 & E2 & W2 & F2 & Hi2 & B1 & B2 & B3 & B4 & B5 & B6).
+      rewrite E2. cbn [rbind]. unfold upd_impl. rewrite Hi2. cbn [rbind].
+      set (st3 := set_impl i (with_holders (i_holders im2 - 1) im2) st2).
+      assert (Hc3 : WFc st3) by (eapply WFc_set_impl_flags; eauto).
+      assert (Hi3 : aget i (impls st3) = Some (with_holders (i_holders im2 - 1) im2)) by (unfold st3; rewrite aget_set_impl, N.eqb_refl; reflexivity).
+      destruct (release_check_ok i st3 Hc3) as (st' & E & W & F & D).
+      destruct D as [->|(_ & Bad)].
+      2:{ exfalso. eapply (refcount_holders_pos i st3); [exact Hi3| |exact Bad]. cbn [i_holders with_holders]. lia. }
+      exists st3, (with_holders (i_holders im2 - 1) im2). split; [exact E|]. split; [exact Hc3|].
+      split; [eapply FrameI_trans; [exact F2|apply FrameI_set_impl]|]. split; [exact Hi3|].
+      cbn [i_exec i_holders i_dying i_deferred i_nodes with_holders].
+      split; [congruence|]. split; [lia|]. split; [congruence|]. split; [apply B6; exact A5|lia].
+    - exists st1, im1. split; [reflexivity|]. split; [exact W1|]. split; [apply FrameI_refl|]. split; [exact Hi1|].
+      split; [congruence|]. split; [exact A2|]. split; [exact A3|]. split; [exact Hd|exact A4]. }
+  destruct Hmid as (st2 & im2 & E2 & W2 & F2 & Hi2 & C1 & C2 & C3 & C4 & C5). rewrite E2. cbn [rbind].
+  destruct (sweep_tail_ok i im2 st2 W2 Hi2) as (st' & E' & W' & F' & D).
+  exists st'. split; [exact E'|]. split; [exact W'|].
+  split; [eapply FrameI_trans; [exact F1|]; eapply FrameI_trans; eauto|].
+  destruct D as [D|(D1 & D2)].
+  - right. eexists. split; [exact D|]. cbn [i_exec i_holders i_dying i_deferred i_nodes with_holders].
+    split; [exact C1|]. split; [lia|]. split; [exact C3|]. split; [exact C4|exact C5].
+  - left. split; [exact D1|lia].
+Qed.
+
+Lemma unreference_exec_ok i im st : WFc st -> aget i (impls st) = Some im ->
+  exists st', unreference_exec i st = Ok st' /\ WFc st' /\ FrameI i st st' /\
+    ((i_exec im - 1 <> 0 \/ i_deferred im = false) -> st' = set_impl i (with_exec (i_exec im - 1) im) st) /\
+    ((aget i (impls st') = None /\ i_holders im = 0) \/
+     exists im', aget i (impls st') = Some im' /\ i_exec im' = i_exec im - 1 /\ i_holders im' = i_holders im /\
+       i_dying im' = i_dying im /\ (i_exec im - 1 = 0 -> i_deferred im' = false) /\
+       (phc (ids (i_nodes im')) <= phc (ids (i_nodes im)))%nat).
+Proof.
+  intros Hc Hi. unfold unreference_exec, upd_impl. rewrite Hi. cbn [rbind].
+  set (im1 := with_exec (i_exec im - 1) im). set (st1 := set_impl i im1 st).
+  assert (Hi1 : aget i (impls st1) = Some im1) by (unfold st1; rewrite aget_set_impl, N.eqb_refl; reflexivity).
+  rewrite Hi1. assert (Hc1 : WFc st1) by (eapply WFc_set_impl_flags; eauto).
+  cbn [im1 i_exec i_deferred with_exec].
+  destruct (N.eqb_spec (i_exec im - 1) 0) as [Hz|Hnz]; cbn [andb].
+  - destruct (i_deferred im) eqn:Hd.
+    + destruct (sweep_ok i im1 st1 Hc1 Hi1 Hz) as (st' & E & W & F & D).
+      exists st'. split; [exact E|]. split; [exact W|]. split; [eapply FrameI_trans; [apply FrameI_set_impl|exact F]|].
+      split; [intros [X|X]; [contradiction|discriminate]|].
+      destruct D as [D|(im' & D1 & D2 & D3 & D4 & D5 & D6)]; [left; exact D|right].
+      exists im'. split; [exact D1|]. split; [congruence|]. split; [exact D3|]. split; [exact D4|].
+      split; [intros _; exact D5|exact D6].
+    + exists st1. split; [reflexivity|]. split; [exact Hc1|]. split; [apply FrameI_set_impl|]. split; [reflexivity|].
+      right. exists im1. split; [exact Hi1|]. cbn [im1 i_exec i_holders i_dying i_deferred i_nodes with_exec].
+      repeat (split; [reflexivity|]). split; [intros _; exact Hd|lia].
+  - exists st1. split; [reflexivity|]. split; [exact Hc1|]. split; [apply FrameI_set_impl|]. split; [reflexivity|].
+    right. exists im1. split; [exact Hi1|]. cbn [im1 i_exec i_holders i_dying i_deferred i_nodes with_exec].
+    repeat (split; [reflexivity|]). split; [intro X; contradiction|lia].
 Qed.
